@@ -1,7 +1,7 @@
 #!/usr/bin/env python3
 """rs2lean.py — translate the pure sizing / hash / constant core of abyssiniandb to Lean 4.
 
-usage: rs2lean.py <repo> <outdir>      (writes <outdir>/Consts.lean, <outdir>/Funcs.lean, <outdir>/FileOps.lean)
+usage: rs2lean.py <repo> <outdir>      (writes <outdir>/Consts.lean, Funcs.lean, FileOps.lean, Engine.lean)
 
 The translator accepts a small, fixed Rust subset (see DESIGN.md §3.2) and FAILS LOUDLY
 (exit 2, message with file and construct) on anything else.  Integers become `Nat`;
@@ -32,8 +32,20 @@ buffers are `List Nat`; `assert!` is `FileM.fail`; `let (a, b) = if c { … } el
 with a `return` in a branch continues every other branch with the rest of the block; the `match` of the
 error recovery around `dat_write_piece_one` is accepted in exactly that shape and its `Err` arm dropped (named
 in the doc comment).
-When the translation fails, Funcs.lean (and FileOps.lean; FileOps.lean alone when only the I/O
-stage failed) is replaced by a file that does not build.
+Third batch: the hash-table file (htx.rs): `impl VarFile { read_hash_buckets_size, read_item_count, write_item_count,
+read_key_piece_offset, write_key_piece_offset, next_key_piece_offset }` and the methods of the handle `HtxFile`
+(`let mut locked = RefCell::borrow_mut(&self.0);` pinned and erased, `locked.file` is the VarFile,
+`locked.buckets_size` the context parameter `bucketsSize`); `read_u8`/`write_u8`; `byte &= e` / `byte |= e` on a
+`u8` with `!`, `<<` (`u8Not`, `u8Shl`); `v = call?;`; `bool` loop variables; several loops in one function; a block
+/ an `if` as the value of a block; an unsigned `a - b` without a guard in the source gets one (`FileM.fail`);
+`std::mem::size_of_val(&v)`; `seek(SeekFrom::Current(-(n as i64)))`; the constants of htx.rs are those of Consts.lean.
+Fourth batch: the engine (dbxxx.rs `FileDbXxxInner<KT>` -> Engine.lean, monad `Abyss.DbM` over the three files; list
+`ENG_FUNCS`): calls through the wrapper layers `KeyFile`/`ValueFile` (each wrapper body read and required to be
+`{ let mut locked = self.0.borrow_mut(); locked.g(args) }`), `HtxFile`, `locked_key`; `Option`, `if let Some(p) = o`,
+`.map(Some)`, the `match` on `cmp_u8` (context parameter `cmp`), `loop { … return … }` with an inner `while`,
+piece structs as locals; `self.dirty = true` and `_cold()` dropped; the hash is a parameter.
+When the translation fails, Funcs.lean (and FileOps.lean, Engine.lean; FileOps.lean and Engine.lean when the I/O
+stage failed, Engine.lean alone when only the engine stage failed) is replaced by a file that does not build.
 Python 3 standard library only.
 """
 import re
@@ -110,6 +122,7 @@ class P:
         self.where = where
         self.keep_try = False         # imperative I/O subset: `e?` is kept as ("try", e)
         self.dropped = []             # statements left out because their `#[cfg(..)]` is false
+        self.kept = []                # statements with a `#[cfg(..)]` that is true
         self.last_cfg = []            # texts of the cfg attributes read by the last `attrs()`
 
     def peek(self, k=0):
@@ -217,6 +230,10 @@ class P:
                     "let %s = …" % " ".join(pat_vars(st[1])) if st[0] == "let" else "statement")
                 self.dropped.append("`%s %s` (cfg false)" % (" ".join(cfgs), what))
                 continue
+            if cfgs:
+                what = "{ … }" if (st[0] == "expr" and st[1][0] == "block") else (
+                    "let %s = …" % " ".join(pat_vars(st[1])) if st[0] == "let" else "statement")
+                self.kept.append("`%s %s` (cfg true)" % (" ".join(cfgs), what))
             if st[0] == "tail":
                 if not self.at("}"):
                     # expression statement without semicolon (if/for/match blocks)
@@ -227,6 +244,11 @@ class P:
                 stmts.append(st)
         self.expect("}")
         if tail is not None and tail[0] == "if" and tail[3] is None:
+            stmts.append(("expr", tail))
+            tail = None
+        if (tail is not None and tail[0] == "iflet" and tail[4] is not None
+                and tail[3][2] is None and tail[4][2] is None):
+            # `if let P = e { …statements… } else { …statements… }` in last position: a statement
             stmts.append(("expr", tail))
             tail = None
         if (tail is not None and tail[0] == "if" and tail[3] is not None and tail[3][0] == "block"
@@ -264,6 +286,12 @@ class P:
             c = self.expr(no_struct=True)
             body = self.block()
             return ("while", c, body)
+        if v == "loop" and self.keep_try and self.peek(1)[1] == "{":
+            # imperative I/O subset: `loop { … }` (left only by `return`)
+            self.next()
+            body = self.block()
+            self.eat(";")
+            return ("loop", body)
         if v == "return":
             self.next()
             e = None if self.at(";") else self.expr()
@@ -332,6 +360,15 @@ class P:
         k, v = self.next()
         if k != "id":
             fail("%s: unsupported pattern at %r" % (self.where, v))
+        if self.at("(") and self.keep_try:
+            # imperative I/O subset: `Some(p)` in `if let`
+            self.next()
+            ps = []
+            while not self.at(")"):
+                ps.append(self.pattern())
+                self.eat(",")
+            self.expect(")")
+            return ("pctor", v, ps)
         return ("pvar", v)
 
     # ---- expressions (precedence climbing)
@@ -368,6 +405,10 @@ class P:
             self.eat("mut")
             return self.unary(no_struct)
         if self.at("-"):
+            if self.keep_try:
+                # imperative I/O subset: only `seek(SeekFrom::Current(-(n as i64)))` gives it a meaning
+                self.next()
+                return ("neg", self.unary(no_struct))
             fail(self.where + ": unary minus is outside the supported subset")
         return self.postfix(no_struct)
 
@@ -468,6 +509,20 @@ class P:
             return ("array", items)
         if v == "{":
             return self.block()
+        if v == "if" and self.keep_try and self.peek(1)[1] == "let":
+            # imperative I/O subset: `if let P = e { … } else { … }`
+            self.next()
+            self.next()
+            pat = self.pattern()
+            self.expect("=")
+            scrut = self.expr(no_struct=True)
+            t = self.block()
+            e = None
+            if self.eat("else"):
+                if self.at("if"):
+                    fail(self.where + ": `if let … else if` is outside the supported subset")
+                e = self.block()
+            return ("iflet", pat, scrut, t, e)
         if v == "if":
             self.next()
             c = self.expr(no_struct=True)
@@ -1279,6 +1334,8 @@ def assigned_vars(stmts, emit):
 def pat_vars(pat):
     if pat[0] == "pvar":
         return [pat[1]]
+    if pat[0] == "pctor":
+        return [v for p in pat[2] for v in pat_vars(p)]
     return [v for p in pat[1] for v in pat_vars(p)]
 
 
@@ -1460,6 +1517,9 @@ IO_PI = "src/filedb/inner/piece.rs"
 IO_ST = "src/filedb/inner/semtype.rs"
 IO_KEY = "src/filedb/inner/key.rs"
 IO_VAL = "src/filedb/inner/val.rs"
+IO_HTX = "src/filedb/inner/htx.rs"
+IO_DBX = "src/filedb/inner/dbxxx.rs"
+IO_MOD = "src/filedb/inner/mod.rs"
 
 NUMERIC = ("Offset", "Size", "Length", "int")
 
@@ -1474,6 +1534,9 @@ IO_PRIMS = {
     "write_all": ("FileM.writeBytes", ["bytes"], "unit", None),
     # `rabuf::SmallRead::read_exact_maybeslice` (= `buf_file.read_exact_maybeslice`)
     "read_exact_maybeslice": ("FileM.readBytes", ["int"], "bytes", None),
+    # `rabuf::SmallRead::read_u8` / `rabuf::SmallWrite::write_u8` over the impls for VarFile (= `buf_file.…`)
+    "read_u8": ("FileM.readU8", [], "int", "u8"),
+    "write_u8": ("FileM.writeU8", ["int"], "unit", None),
     # `<vf>.seek(SeekFrom::Start(x))` / `SeekFrom::End(0)` / `SeekFrom::Current(n as i64)` are recognised
     # by shape in EmitIO.mex
 }
@@ -1483,22 +1546,38 @@ IO_BUF_PRIMS = {
     "read_u8": ("FileM.readU8", [], "int", "u8"),
 }
 # statements `self.<m>(..)?;` that are left out, with the reason written to the doc comment
+# assignments that are left out (engine): the dirty flag belongs to the buffer model
+IO_DROPPED_ASSIGN = {"self.dirty": "`self.dirty = true` (the dirty flag belongs to the buffer model: `flush`/`sync` "
+                                   "write the buffers out only when it is set; the flat files have no buffer)"}
 IO_DROPPED_CALLS = {"prepare": "`self.prepare(..)?` (read-ahead hint of the buffer, no effect on the flat file)"}
 # unit-of-measure newtypes of semtype.rs: constructor path -> class; all are erased to `Nat`
 IO_NEWTYPES = {"PieceOffset": "Offset", "Offset": "Offset", "PieceSize": "Size", "KeyLength": "Length",
                "ValuePieceOffset": "Offset", "KeyPieceOffset": "Offset", "ValuePieceSize": "Size",
-               "KeyPieceSize": "Size", "ValueLength": "Length"}
+               "KeyPieceSize": "Size", "ValueLength": "Length",
+               "NodePieceOffset": "Offset", "NodePieceSize": "Size"}
 IO_NEWTYPE_WIDTH = {"Offset": 64, "Size": 32, "Length": 32}
 IO_SIG_TYPES = {"PieceOffset<T>": "Offset", "Offset<T>": "Offset", "PieceSize<T>": "Size", "KeyLength": "Length",
                 "Length<T>": "Length", "ValueLength": "Length",
                 "ValuePieceOffset": "Offset", "KeyPieceOffset": "Offset",
                 "ValuePieceSize": "Size", "KeyPieceSize": "Size",
-                "u32": "int", "u64": "int", "()": "unit", "bool": "bool",
+                "Size<T>": "Size", "u32": "int", "u64": "int", "()": "unit", "bool": "bool",
+                # semtype.rs `HashValue { val: u64 }` (`new`, `as_value` pinned): a plain integer
+                "HashValue": "int",
                 # byte sequences; a key `KT: DbMapKeyType` is its bytes (`as_bytes` / `from_bytes` / `clone` erased)
                 "Vec<u8>": "bytes", "&[u8]": "bytes", "rabuf::MaybeSlice": "bytes", "KT": "bytes", "&KT": "bytes",
                 "&mutVarFile": "vfile",
                 "ValuePiece": ("struct", "ValuePiece"), "KeyPiece<KT>": ("struct", "KeyPiece")}
 IO_RESERVED = ("c", "fuel", "loopFuel", "loopRes", "loopRet", "tryVal")
+IO_RESERVED_ENGINE = ("kc", "vc", "bucketsSize", "cmp")
+# context parameters of a translated function (in this order, before its own parameters):
+# the piece manager of the file (`c`; of the key / value file in the engine: `kc`, `vc`), the field
+# `buckets_size` of the `VarFileHtxCache`, the comparison `KT::cmp_u8` of the key type
+CTX_ORDER = ("c", "kc", "vc", "bucketsSize", "cmp")
+CTX_TYPES = {"c": "FileCfg", "kc": "FileCfg", "vc": "FileCfg", "bucketsSize": "Nat",
+             "cmp": "List Nat → List Nat → Option Ordering"}
+# constants of a file that the translated functions of that file may use: Rust name -> name in Consts.lean
+IO_CONSTS = {IO_HTX: {"HTX_HEADER_SZ": "htxHeaderSz", "HTX_HT_SIZE_OFFSET": "htxHtSizeOffset",
+                      "HTX_ITEM_COUNT_OFFSET": "htxItemCountOffset"}}
 # methods that are the identity on a byte sequence / key
 IO_BYTES_IDENTITY = ("as_bytes", "clone", "to_vec", "into_vec")
 
@@ -1545,6 +1624,9 @@ IO_STRUCTS = {
 # owners of translated methods: name -> (`impl` header, text that denotes the VarFile inside, pinned definition)
 IO_OWNERS = {
     "VarFile": ("impl VarFile", "self", None),
+    # htx.rs: the methods of the handle `HtxFile(Rc<RefCell<VarFileHtxCache>>)`; every body opens with
+    # `let mut locked = RefCell::borrow_mut(&self.0);` (checked in io_build_fn, definitions pinned in io_pin_htx)
+    "HtxFile": ("impl HtxFile", "locked.file", None),
     "ValuePiece": ("impl ValuePiece", None, None),
     "KeyPiece": ("impl<KT: DbMapKeyType> KeyPiece<KT>", None, None),
     "VarFileValueCache": ("impl VarFileValueCache", "self.0",
@@ -1573,13 +1655,24 @@ def io_lean_ty(t):
         return "List Nat"
     if isinstance(t, tuple) and t[0] == "tuple":
         return " × ".join(io_lean_ty(x) if not isinstance(x, tuple) else "(" + io_lean_ty(x) + ")" for x in t[1])
+    if isinstance(t, tuple) and t[0] == "option" and t[1] is not None:
+        return "Option " + io_atom(io_lean_ty(t[1]))
     fail("imperative I/O subset: no Lean type for %r" % (t,))
+
+
+def io_ty_eq(a, b):
+    """equality of value classes; the class of `None` is `("option", None)`: an option of anything"""
+    if isinstance(a, tuple) and isinstance(b, tuple) and a[0] == "option" and b[0] == "option":
+        return a[1] is None or b[1] is None or io_ty_eq(a[1], b[1])
+    return a == b
 
 
 def io_sig_type(s, where):
     """type text of a signature (`PieceSize<T>`, `(PieceSize<T>,PieceOffset<T>)`) -> class"""
     if s in IO_SIG_TYPES:
         return IO_SIG_TYPES[s]
+    if s.startswith("Option<") and s.endswith(">"):
+        return ("option", io_sig_type(s[len("Option<"):-1], where))
     if s.startswith("(") and s.endswith(")"):
         parts, depth, cur = [], 0, ""
         for ch in s[1:-1]:
@@ -1685,6 +1778,8 @@ def io_assigned(stmts, where):
                 decl.update(pat_vars(st[1]))
             elif k == "assign":
                 v = io_target(st[2], where)
+                if v in IO_DROPPED_ASSIGN:
+                    continue
                 if v.split(".")[0] not in decl and v not in out:
                     out.append(v)
                 ex(st[3], decl)
@@ -1693,6 +1788,8 @@ def io_assigned(stmts, where):
             elif k == "while":
                 ex(st[1], decl)
                 blk(st[2][1], st[2][2], decl)
+            elif k == "loop":
+                blk(st[1][1], st[1][2], decl)
             elif k == "return":
                 if st[1] is not None:
                     ex(st[1], decl)
@@ -1711,6 +1808,15 @@ def io_assigned(stmts, where):
             blk(e[2][1], e[2][2], decl)
             if e[3] is not None:
                 ex(e[3], decl)
+        elif e[0] == "iflet":
+            ex(e[2], decl)
+            blk(e[3][1], e[3][2], set(decl) | set(pat_vars(e[1])))
+            if e[4] is not None:
+                ex(e[4], decl)
+        elif e[0] == "match":
+            ex(e[1], decl)
+            for _p, _b, body in e[2]:
+                ex(body, decl)
         else:
             for x in e[1:]:
                 if isinstance(x, tuple) and x and isinstance(x[0], str):
@@ -1725,8 +1831,8 @@ def io_assigned(stmts, where):
 
 
 def io_declared(node):
-    """all variables bound by a `let` anywhere below `node`"""
-    return set(v for n in io_walk(node) if n[0] == "let" for v in pat_vars(n[1]))
+    """all variables bound by a `let` / `if let` anywhere below `node`"""
+    return set(v for n in io_walk(node) if n[0] in ("let", "iflet") for v in pat_vars(n[1]))
 
 
 def split_items(toks, lo, hi):
@@ -1926,12 +2032,46 @@ class CtxValue:
         self.widths = None
 
     def tail(self, e):
+        em = self.em
         if e[0] == "try":
-            lines, self.ty = self.em.mex(e[1])
+            lines, self.ty = em.mex(e[1])
+            if isinstance(self.ty, tuple) and self.ty[0] == "sres":
+                # a piece struct returned by a call as the value of the block: all its fields
+                _s, name, rf, _om, omtxt = self.ty
+                omtxt = dict(omtxt)
+                tv = {fld: "tryVal" + ("" if i == 0 else str(i + 1)) for i, fld in enumerate(rf)}
+                vals = []
+                for fld, _fc in IO_STRUCTS[name]["fields"]:
+                    if fld in tv:
+                        vals.append(tv[fld])
+                    elif omtxt.get(fld) is not None:
+                        vals.append(omtxt[fld])
+                    else:
+                        fail("%s: the field `%s` of the `%s` returned by the call has no value here" % (em.where, fld, name))
+                self.ty = ("struct", name)
+                pt = tv[rf[0]] if len(rf) == 1 else "(" + ", ".join(tv[x] for x in rf) + ")"
+                return io_attach("let %s ← " % pt, lines) + ["pure (" + ", ".join(vals) + ")"]
             if lines[0] == "do":
                 return [x[2:] for x in lines[1:]]
             return lines
-        pre, t, self.ty = self.em.px_lift(e)
+        if e[0] == "if":
+            lines, self.ty = em.value_if(e)
+            return lines
+        if e[0] == "match":
+            lines, self.ty = em.cmp_match(e)
+            return lines
+        if em.is_struct_expr(e) and e[0] == "path":
+            # a piece struct variable as the value of the block: all its fields
+            name, sv = em.px_struct(e)
+            for fld, _fc in IO_STRUCTS[name]["fields"]:
+                if fld not in sv:
+                    fail("%s: the field `%s` of `%s` has no value here" % (em.where, fld, e[1][0]))
+            self.ty = ("struct", name)
+            return ["pure (" + ", ".join(sv[fld][0] for fld, _fc in IO_STRUCTS[name]["fields"]) + ")"]
+        if em.guards is None and not (e[0] == "tuple" and any(x[0] == "try" for x in e[1])):
+            pre, t, self.ty = em.px_guarded(e)
+            return pre + ["pure " + io_atom(t)]
+        pre, t, self.ty = em.px_lift(e)
         return pre + ["pure " + io_atom(t)]
 
     def fall(self):
@@ -1985,6 +2125,27 @@ class CtxLoop:
         return ["pure (.inl %s)" % txt]
 
 
+class CtxForever:
+    """body of a `loop { … }` that is the last statement of the function: the end of the body is the next
+    round, `return e` is the value of the function"""
+    def __init__(self, em, reccall):
+        self.em = em
+        self.reccall = reccall
+        self.fn = CtxFn(em)
+
+    def tail(self, e):
+        fail(self.em.where + ": `loop` body with a value")
+
+    def fall(self):
+        return [self.reccall]
+
+    def ret(self, e):
+        return self.fn.ret(e)
+
+    def ret_pure(self, txt):
+        return self.fn.ret_pure(txt)
+
+
 class EmitIO:
     """translates the body of one method to the lines of a Lean `do` block"""
 
@@ -2005,7 +2166,16 @@ class EmitIO:
         self.aux = []                 # auxiliary loop definitions (doc, text)
         self.in_loop = False
         self.nloops = 0
+        self.guards = None            # list that collects the underflow guards of `a - b`, where the statement can emit them
         self.vf_texts = set(f.vf_texts)
+        self.handles = {}             # engine: `locked_key` (of `let mut locked_key = self.key_file.0.borrow_mut();`) -> "key"
+        self.reserved = IO_RESERVED + (IO_RESERVED_ENGINE if f.engine else ()) + tuple(f.consts.values())
+        for txt, (ln, cls, wd) in f.field_params.items():
+            # `locked.buckets_size`: a field of the cache struct that is a context parameter
+            self.vt[txt], self.names[txt] = cls, ln
+            self.order.append(txt)
+            self.pristine.add(txt)
+            self.width[txt] = wd
         for p in f.params:
             if p.cls == "vfile":
                 continue
@@ -2036,7 +2206,7 @@ class EmitIO:
             self.alias[v] = self.alias.get(alias_of, alias_of)
         else:
             ln = lean or io_ident(v)
-            if ln in IO_RESERVED or re.match(r"^tryVal\d*$", ln):
+            if ln in self.reserved or re.match(r"^tryVal\d*$", ln):
                 fail("%s: the variable `%s` would get the reserved Lean name `%s`" % (self.where, v, ln))
             if self.lean_used.get(ln, v) != v:
                 fail("%s: the variables `%s` and `%s` would both be called `%s` in Lean"
@@ -2074,7 +2244,7 @@ class EmitIO:
 
     def bind_pat(self, pat, ty, widths=None):
         if pat[0] == "pvar":
-            if isinstance(ty, tuple) and pat[1] != "_":
+            if isinstance(ty, tuple) and ty[0] != "option" and pat[1] != "_":
                 fail("%s: a tuple bound to the single variable `%s`" % (self.where, pat[1]))
             if ty == "unit" and pat[1] != "_":
                 fail("%s: `()` bound to the variable `%s`" % (self.where, pat[1]))
@@ -2089,7 +2259,7 @@ class EmitIO:
 
     def check_ret(self, ty):
         if isinstance(ty, tuple) and ty[0] == "sres":
-            _s, name, rf, omitted = ty
+            _s, name, rf, omitted = ty[:4]
             if self.f.ret != ("struct", name) or list(rf) != list(self.f.ret_fields):
                 fail("%s: a `%s` with the fields (%s) is returned, the configuration says %r with (%s)"
                      % (self.where, name, ", ".join(rf), self.f.ret, ", ".join(self.f.ret_fields or [])))
@@ -2104,7 +2274,7 @@ class EmitIO:
                      "at different `return`s" % (self.where, name))
             self.f.ret_omitted = om
             return
-        if ty != self.f.ret:
+        if not io_ty_eq(ty, self.f.ret):
             fail("%s: a value of class %r is returned, the signature says %r" % (self.where, ty, self.f.ret))
 
     def text(self, e):
@@ -2131,6 +2301,8 @@ class EmitIO:
         k = self.field_key(e)
         if k is not None and k in self.vt:
             return k
+        if e[0] == "field" and io_text(e) in self.f.field_params:
+            return io_text(e)
         return None
 
     def root_of(self, v):
@@ -2194,6 +2366,14 @@ class EmitIO:
             if (self.f.owner, name) in self.table:
                 return ("fn", self.table[(self.f.owner, name)])
             return ("unknown-self", None)
+        if self.f.engine:
+            # the wrapper layers around the three files, the key file held open, the engine itself
+            tgt = io_call_target(self.f, ("mcall", recv, name, []), self.handles)
+            if tgt is not None:
+                key, via, argspec = tgt
+                if key not in self.table:
+                    return ("unknown-self", None)
+                return ("fn", self.table[key], via, argspec)
         if recv[0] == "path" and len(recv[1]) == 1 and isinstance(self.vt.get(recv[1][0]), tuple) \
                 and self.vt[recv[1][0]][0] == "struct":
             sn = self.vt[recv[1][0]][1]
@@ -2225,8 +2405,14 @@ class EmitIO:
                 if isinstance(self.vt[e[1][0]], tuple) and self.vt[e[1][0]][0] == "struct":
                     fail("%s: the piece struct `%s` is used where a plain value is expected" % (w, e[1][0]))
                 return self.names[e[1][0]], self.vt[e[1][0]]
+            if len(e[1]) == 1 and e[1][0] in self.f.consts:
+                return self.f.consts[e[1][0]], "int"    # a constant of Consts.lean (checked to be this one; the name is reserved)
+            if e[1] == ["None"]:
+                return "none", ("option", None)
             fail("%s: `%s` is not a local variable or parameter" % (w, "::".join(e[1])))
         if k == "field":
+            if io_text(e) in self.f.field_params:
+                return self.names[io_text(e)], self.vt[io_text(e)]
             key = self.field_key(e)
             if key is not None:
                 if key in self.vt:
@@ -2256,6 +2442,15 @@ class EmitIO:
                 if ty != "int":
                     fail("%s: vu64::decoded_len(..) of something that is not a plain integer" % w)
                 return "(Abyss.Vu64.decodedLen %s)" % io_atom(t), "int"
+            if p == ["Some"] and len(e[2]) == 1:
+                t, ty = self.px(e[2][0])
+                return "(some %s)" % io_atom(t), ("option", ty)
+            if p == ["std", "mem", "size_of_val"] and len(e[2]) == 1:
+                # `std::mem::size_of_val(&v)` of an integer variable: the number of bytes of its type
+                a = e[2][0]
+                if not (a[0] == "path" and len(a[1]) == 1 and self.vt.get(a[1][0]) == "int"):
+                    fail("%s: std::mem::size_of_val(..) of something that is not a plain integer variable" % w)
+                return str(WIDTH[self.decl_width(a[1][0])] // 8), "int"
             if p == ["KT", "from_bytes"] and len(e[2]) == 1:
                 t, ty = self.px(e[2][0])
                 if ty != "bytes":
@@ -2331,17 +2526,24 @@ class EmitIO:
             t, ty = self.px(e[1])
             if ty != "int" or e[2] not in WIDTH:
                 fail("%s: unsupported cast `as %s` of a value of class %r" % (w, e[2], ty))
-            if e[1][0] == "num" and e[1][1] < 2 ** WIDTH[e[2]]:
+            if (e[1][0] == "num" and e[1][1] < 2 ** WIDTH[e[2]]) or (re.match(r"^\d+$", t) and int(t) < 2 ** WIDTH[e[2]]):
                 return t, "int"
             # all integers of this subset are unsigned: `as uN` is `% 2^N` (the identity when widening)
             return "(%s %% 2^%d)" % (t, WIDTH[e[2]]), "int"
         if k == "bin":
             op = e[1]
-            (a, ta), (b, tb) = self.px(e[2]), self.px(e[3])
+            if op in ("&", "|", "^", "<<", ">>"):
+                fail("%s: bit operator `%s` outside `v &= e;` / `v |= e;` on a `u8` variable (the width of the operands "
+                     "is not known here)" % (w, op))
             if op in ("&&", "||"):
+                # the right operand is not always evaluated: no guard can be put in front of the statement
+                g, self.guards = self.guards, None
+                (a, ta), (b, tb) = self.px(e[2]), self.px(e[3])
+                self.guards = g
                 if ta != "bool" or tb != "bool":
                     fail("%s: `%s` on something that is not a condition" % (w, op))
                 return "(%s %s %s)" % (a, op, b), "bool"
+            (a, ta), (b, tb) = self.px(e[2]), self.px(e[3])
             if op in ("<", ">", "<=", ">=", "==", "!="):
                 if ta != tb or ta not in NUMERIC:
                     fail("%s: comparison `%s` of values of classes %r and %r" % (w, op, ta, tb))
@@ -2355,6 +2557,11 @@ class EmitIO:
                     return "(%s + %s)" % (a, b), "int"
             if op == "-":
                 if (ta, tb) in (("Offset", "Offset"), ("int", "int")):
+                    if (a, b) not in self.facts and (ta, tb) == ("int", "int") and self.guards is not None:
+                        # unsigned `a - b` without a guard in the source: a debug build panics when `a < b`, a
+                        # release build wraps; the translation fails (= outside the model) in front of the statement
+                        self.guards.append("(if (decide (%s < %s)) then %s else pure ())" % (a, b, self.f.failtxt))
+                        return "(%s - %s)" % (a, b), "int"
                     if (a, b) not in self.facts:
                         fail("%s: `%s - %s` without an enclosing `if %s > %s` / `>=`: truncated subtraction "
                              "would not be exact" % (w, a, b, a, b))
@@ -2366,8 +2573,72 @@ class EmitIO:
                 return "(%s %s %s)" % (a, op, b), "int"
             fail("%s: operator `%s` on values of classes %r and %r" % (w, op, ta, tb))
         if k == "try":
-            fail("%s: `?` inside an expression (supported: `let x = call?;`, `call?;`, `(call?, x)` as the value of a block)" % w)
+            fail("%s: `?` inside an expression (supported: `let x = call?;`, `v = call?;`, `call?;`, `(call?, x)` as the value of a block)" % w)
+        if k == "neg":
+            fail("%s: unary minus (supported only as `seek(SeekFrom::Current(-(n as i64)))` with `n: u32`)" % w)
         fail("%s: expression kind `%s` is outside the imperative I/O subset" % (w, k))
+
+    def px_guarded(self, e):
+        """a pure expression whose unguarded subtractions are guarded by do-items: (do-items, Lean text, class)"""
+        if self.guards is not None:
+            return [], *self.px(e)
+        self.guards = []
+        try:
+            t, ty = self.px(e)
+            pre = self.guards
+        finally:
+            self.guards = None
+        return pre, t, ty
+
+    def px_bits(self, e, wd):
+        """an expression of the integer type `wd` (only `u8`) built from `!`, `&`, `|`, `<<`: Lean text.
+        `!x` = `u8Not x`, `x << n` = `u8Shl x n` (prelude of FileOps.lean), `&`/`|` = `Nat.land`/`Nat.lor`."""
+        w = self.where
+        if wd != "u8":
+            fail("%s: bit operations on a `%s` (only `u8` is supported)" % (w, wd))
+        k = e[0]
+        if k == "num":
+            if e[1] >= 2 ** WIDTH[wd]:
+                fail("%s: the literal %d does not fit `%s`" % (w, e[1], wd))
+            return str(e[1])
+        if k == "path" and len(e[1]) == 1 and self.vt.get(e[1][0]) == "int":
+            if self.width.get(e[1][0]) != wd:
+                fail("%s: `%s` in a bit operation on `%s`: its width is %s" % (w, e[1][0], wd, self.width.get(e[1][0]) or "unknown"))
+            return self.names[e[1][0]]
+        if k == "not":
+            return "(u8Not %s)" % self.px_bits(e[1], wd)
+        if k == "bin" and e[1] in ("&", "|"):
+            return "(Nat.%s %s %s)" % ("land" if e[1] == "&" else "lor", self.px_bits(e[2], wd), self.px_bits(e[3], wd))
+        if k == "bin" and e[1] == "<<":
+            n, tn = self.px(e[3])
+            if tn != "int":
+                fail("%s: shift by something that is not a plain integer" % w)
+            return "(u8Shl %s %s)" % (self.px_bits(e[2], wd), io_atom(n))
+        fail("%s: unsupported operand of a bit operation on `%s` (kind `%s`)" % (w, wd, k if k != "bin" else "`%s`" % e[1]))
+
+    def decl_width(self, v):
+        """the integer type of the local `v`, declared once as `let mut v = <literal>;` and assigned only
+        `v = <bottom primitive>()?` (the primitive's result type)"""
+        w = self.where
+        lets = [n for n in io_walk(self.f.body) if n[0] == "let" and v in pat_vars(n[1])]
+        if len(lets) != 1 or lets[0][1] != ("pvar", v):
+            fail("%s: the integer type of `%s` is not evident (%d declarations)" % (w, v, len(lets)))
+        if lets[0][2] in WIDTH:
+            return lets[0][2]
+        if lets[0][3][0] != "num":
+            fail("%s: the integer type of `%s` is not evident (no annotation, not a literal)" % (w, v))
+        ws = set()
+        for n in io_walk(self.f.body):
+            if n[0] == "assign" and n[2] == ("path", [v]):
+                if n[1] != "=":
+                    continue                                         # `v += e` does not change the type
+                wd = self.mex_width(n[3][1]) if n[3][0] == "try" else None
+                if wd is None:
+                    fail("%s: the integer type of `%s` is not evident (an assignment that is not `%s = <primitive>()?`)" % (w, v, v))
+                ws.add(wd)
+        if len(ws) != 1:
+            fail("%s: the integer type of `%s` is not evident (%s)" % (w, v, ", ".join(sorted(ws)) or "never assigned"))
+        return ws.pop()
 
     def px_lift(self, e):
         """a value whose tuple components may be `call?`: (do-items that run the calls, Lean text, class)"""
@@ -2407,7 +2678,10 @@ class EmitIO:
         if c[0] == "bin" and c[1] in (">", ">=", "<", "<="):
             a, b = side(c[2]), side(c[3])
             if a is not None and b is not None:
-                return [(a, b)] if c[1] in (">", ">=") else [(b, a)]
+                out = [(a, b)] if c[1] in (">", ">=") else [(b, a)]
+                if c[1] == ">" and c[3][0] == "num":
+                    out.append((a, str(c[3][1] + 1)))                # `a > k` is `a ≥ k + 1`
+                return out
         return []
 
     # ---- monadic expressions (`Result`-typed): (lines of a Lean term, class of the value)
@@ -2437,12 +2711,20 @@ class EmitIO:
             out += " " + io_atom(t)
         return out
 
-    def call_fn(self, g, recv, args, what):
-        """call of a translated function: (Lean term, class of its value)"""
+    def call_fn(self, g, recv, args, what, via=None, argspec=None):
+        """call of a translated function: (Lean term, class of its value).  `via`: the file of the engine the
+        function works on (`key`/`val`/`htx`: lifted into `DbM`); `argspec`: the call goes through a pinned
+        wrapper `fn m(&self, p…) { let mut locked = self.0.borrow_mut(); locked.g(a…) }`, a… = parameters / literals"""
         w = self.where
-        out = g.lean + (" c" if g.needs_c else "")
+        if argspec is not None:
+            nparams, spec = argspec
+            if len(args) != nparams:
+                fail("%s: %s takes %d argument(s), %d given" % (w, what, nparams, len(args)))
+            args = [args[x[1]] if x[0] == "param" else x[1] for x in spec]
+        out = g.lean + "".join(" " + io_map_ctx(x, via) for x in g.needs)
         params = list(g.params)
         passed = {}                    # key of a parameter of `g` -> root variable of the argument
+        passed_txt = {}                # key of a parameter of `g` -> Lean text of the argument
         def struct_arg(p, e):
             nonlocal out
             name, sv = self.px_struct(e)
@@ -2454,6 +2736,7 @@ class EmitIO:
                         fail("%s: %s reads the field `%s` of its `%s`, which has no value here" % (w, what, fld, name))
                     out += " " + io_atom(sv[fld][0])
                     passed[p.rust + "." + fld] = sv[fld][2]
+                    passed_txt[p.rust + "." + fld] = sv[fld][0]
         if g.recv_struct:
             struct_arg(params[0], recv)
             params = params[1:]
@@ -2466,12 +2749,19 @@ class EmitIO:
             elif p.fields is not None:
                 struct_arg(p, a)
             else:
-                out += self.args([a], [p.cls], what)
+                at = self.args([a], [p.cls], what)
+                out += at
                 passed[p.rust] = self.root_of(self.var_of(a))
+                passed_txt[p.rust] = at.strip()
         ret = g.ret
         if isinstance(ret, tuple) and ret[0] == "struct":
             ret = ("sres", ret[1], tuple(g.ret_fields),
-                   tuple((fld, passed.get(pk)) for fld, pk in sorted(g.ret_omitted.items())))
+                   tuple((fld, passed.get(pk)) for fld, pk in sorted(g.ret_omitted.items())),
+                   tuple((fld, passed_txt.get(pk)) for fld, pk in sorted(g.ret_omitted.items())))
+        if via in ("key", "val", "htx"):
+            out = "%s %s" % ({"key": "liftKey", "val": "liftVal", "htx": "liftHtx"}[via], io_atom(out))
+        elif self.f.engine and via != "self":
+            fail("%s: %s: a function of one file is called without saying of which" % (w, what))
         return out, ret
 
     def mex(self, e):
@@ -2487,7 +2777,9 @@ class EmitIO:
                 txt = "(" + ", ".join(sv[fld][0] for fld in rf) + ")" if len(rf) != 1 else sv[rf[0]][0]
                 omitted = tuple((fld, sv[fld][2] if fld in sv else None)
                                 for fld, _fc in IO_STRUCTS[name]["fields"] if fld not in rf)
-                return ["pure " + io_atom(txt)], ("sres", name, tuple(rf), omitted)
+                omitted_txt = tuple((fld, sv[fld][0] if fld in sv else None)
+                                    for fld, _fc in IO_STRUCTS[name]["fields"] if fld not in rf)
+                return ["pure " + io_atom(txt)], ("sres", name, tuple(rf), omitted, omitted_txt)
             t, ty = self.px(e[2][0])
             return ["pure " + io_atom(t)], ty
         if k == "mcall":
@@ -2500,6 +2792,12 @@ class EmitIO:
                     if ty != "int":
                         fail("%s: .map(%s::new) of a value that is not a plain integer" % (w, f[1][0]))
                     return lines, IO_NEWTYPES[f[1][0]]           # `.map(Newtype::new)`: erased
+                if f == ("path", ["Some"]):
+                    if isinstance(ty, tuple) and ty[0] == "sres":
+                        fail("%s: .map(Some) of a piece struct" % w)
+                    if len(lines) != 1:
+                        fail("%s: `.map(Some)` on a compound expression" % w)
+                    return ["do", "  let tryVal ← %s" % lines[0], "  pure (some tryVal)"], ("option", ty)
                 if f[0] == "closure" and len(f[1]) == 1 and f[1][0][0] == "pvar":
                     snap = self.snapshot()
                     used = dict(self.lean_used)
@@ -2525,14 +2823,24 @@ class EmitIO:
                         and len(a[2][0][1][1]) == 1 and self.width.get(a[2][0][1][1][0]) in ("u8", "u16", "u32")):
                     # a `u32` widened to `i64` is not negative: a forward seek
                     return ["FileM.seekCur" + self.args([a[2][0][1]], ["int"], "SeekFrom::Current")], "int"
-                fail("%s: only `seek(SeekFrom::Start(x))`, `seek(SeekFrom::End(0))`, `seek(SeekFrom::Current(n as i64))` "
-                     "with `n: u32` are supported" % w)
+                if (a is not None and a[0] == "call" and a[1] == ["SeekFrom", "Current"] and len(a[2]) == 1
+                        and a[2][0][0] == "neg" and a[2][0][1][0] == "cast" and a[2][0][1][2] == "i64"
+                        and a[2][0][1][1][0] == "path" and len(a[2][0][1][1][1]) == 1
+                        and self.width.get(a[2][0][1][1][1][0]) in ("u8", "u16", "u32")):
+                    # `-(n as i64)` with `n: u32`: a backward seek by `n`; before the start of the file it is an error
+                    return ["FileM.seekBack" + self.args([a[2][0][1][1]], ["int"], "SeekFrom::Current")], "int"
+                fail("%s: only `seek(SeekFrom::Start(x))`, `seek(SeekFrom::End(0))`, `seek(SeekFrom::Current(n as i64))`, "
+                     "`seek(SeekFrom::Current(-(n as i64)))` with `n: u32` are supported" % w)
             if r is not None and r[0] == "prim":
                 lean, classes, ty, _wd = r[1]
                 return [lean + self.args(args, classes, "%s.%s" % (rt, name))], ty
             if r is not None and r[0] == "fn":
-                t, ty = self.call_fn(r[1], recv, args, "%s.%s" % (rt, name))
+                t, ty = self.call_fn(r[1], recv, args, "%s.%s" % (rt, name), *r[2:])
                 return [t], ty
+            if r is not None and r[0] == "unknown-self" and rt in ("self.key_file", "self.val_file"):
+                fail("%s: call of `%s.%s(..)`: the method `%s` of the wrapper layer is not exactly `{ let mut locked = "
+                     "self.0.borrow_mut(); locked.g(args) }` (args: its parameters / boolean literals) around a translated "
+                     "function `g`" % (w, rt, name, name))
             if r is not None and r[0] in ("unknown-vf", "unknown-self"):
                 fail("%s: call of `%s.%s(..)`: not one of the translated functions or bottom primitives" % (w, rt, name))
         fail("%s: unsupported expression where a `Result` is expected (kind `%s`)" % (w, k))
@@ -2563,6 +2871,8 @@ class EmitIO:
             return ["if %s then" % c] + ind(a) + ["else"] + ind(b)
         if e[0] == "block":
             return self.scoped(e[1], e[2], ctx)
+        if e[0] == "iflet":
+            return self.iflet(e, [], None, ctx, False)
         lines, ty = self.mex(e)
         self.check_ret(ty)
         if lines[0] == "do":
@@ -2581,6 +2891,89 @@ class EmitIO:
         if ca.ty != cb.ty:
             fail("%s: the branches of an `if` used as a value have the classes %r and %r" % (w, ca.ty, cb.ty))
         return ["if %s then do" % c] + ind(a) + ["else do"] + ind(b), ca.ty
+
+    def cmp_match(self, e):
+        """exactly `match <key>.cmp_u8(<bytes>) { Ordering::Equal => a, Ordering::Greater => b, Ordering::Less => c }`
+        (arms in any order, pure values): (lines of the monadic term, class).  `KT::cmp_u8` is the context
+        parameter `cmp` (`Funcs.lean` `cmpU8…`); `none` = the comparison panics."""
+        w = self.where
+        sc = e[1]
+        if not (self.f.engine and sc[0] == "mcall" and sc[2] == "cmp_u8" and len(sc[3]) == 1):
+            fail("%s: `match` is only supported as `match k.cmp_u8(bytes) { Ordering::Equal => …, Ordering::Greater => …, "
+                 "Ordering::Less => … }` and as the error recovery around `dat_write_piece_one`" % w)
+        (kt, kty), (bt, bty) = self.px(sc[1]), self.px(sc[3][0])
+        if kty != "bytes" or bty != "bytes":
+            fail("%s: `.cmp_u8(..)` on values of classes %r and %r (a key and a byte sequence expected)" % (w, kty, bty))
+        ctor = {"Equal": ".eq", "Greater": ".gt", "Less": ".lt"}
+        if sorted(tuple(a[0]) for a in e[2]) != sorted(("Ordering", x) for x in ctor) or any(a[1] is not None for a in e[2]):
+            fail("%s: the arms of the `match` on `cmp_u8` are not exactly `Ordering::Equal`, `Ordering::Greater`, `Ordering::Less`" % w)
+        lines = ["match cmp %s %s with" % (io_atom(kt), io_atom(bt))]
+        ty = None
+        for path, _b, body in e[2]:
+            if any(n[0] in ("try", "return", "returnx", "block", "if", "match") for n in io_walk(body)):
+                fail("%s: an arm of the `match` on `cmp_u8` is not a plain value" % w)
+            t, aty = self.px(body)
+            if ty is not None and aty != ty:
+                fail("%s: the arms of the `match` on `cmp_u8` have the classes %r and %r" % (w, ty, aty))
+            ty = aty
+            lines.append("| some %s => pure %s" % (ctor[path[1]], io_atom(t)))
+        lines.append("| none => %s" % self.f.failtxt)
+        return lines, ty
+
+    def bind_struct(self, v, name, bound, others):
+        """`let v = <a piece struct>`: the flattened variable `v`; the fields `bound` are bound by the pattern
+        that is returned, the fields in `others` (field -> Lean text) by the `let`s returned second"""
+        w = self.where
+        if v == "_" or v in self.vt or v in self.handles:
+            fail("%s: the piece struct `%s` hides a variable" % (w, v))
+        self.vt[v] = ("struct", name)
+        names = {}
+        post = []
+        for fld, fc in IO_STRUCTS[name]["fields"]:
+            ln = io_ident(v + "_" + fld)
+            if fld in bound:
+                names[fld] = self.declare(v + "." + fld, fc, lean=ln)
+            elif others.get(fld) is not None:
+                txt = others[fld]
+                post.append("let %s := %s" % (self.declare(v + "." + fld, fc, lean=ln), txt))
+            else:
+                fail("%s: the field `%s` of `%s` has no value (the call leaves it out and it is not an argument)" % (w, fld, v))
+        pt = names[bound[0]] if len(bound) == 1 else "(" + ", ".join(names[x] for x in bound) + ")"
+        return pt, post
+
+    def iflet(self, e, rest, tail, ctx, stmt):
+        """`if let Some(p) = opt { A } else { B }`: a `match` on the option.  In tail position of the function the
+        branches are its value; in statement position the branches may only have effects (no assignment to an outer
+        variable, no `return`)"""
+        w = self.where
+        _, pat, scrut, then, els = e
+        if not (pat[0] == "pctor" and pat[1] == "Some" and len(pat[2]) == 1):
+            fail("%s: `if let` with a pattern that is not `Some(p)`" % w)
+        if els is None:
+            fail("%s: `if let` without `else`" % w)
+        t, ty = self.px(scrut)
+        if not (isinstance(ty, tuple) and ty[0] == "option" and ty[1] is not None):
+            fail("%s: `if let Some(..) = e` on a value of class %r" % (w, ty))
+        if stmt:
+            if then[2] is not None or els[2] is not None:
+                fail("%s: `if let` in statement position whose branches have values" % w)
+            if io_contains_return(then) or io_contains_return(els):
+                fail("%s: `return` inside an `if let` in statement position" % w)
+            asg = io_assigned(list(then[1]) + list(els[1]), w)
+            if asg:
+                fail("%s: an `if let` in statement position assigns `%s`" % (w, "`, `".join(asg)))
+            bctx = CtxBranch(self, "()")
+        else:
+            bctx = ctx
+        snap = self.snapshot()
+        pt = self.bind_pat(pat[2][0], ty[1])
+        a = self.seq(then[1], then[2], bctx)
+        self.restore(snap, io_assigned(then[1], w))
+        b = self.scoped(els[1], els[2], bctx)
+        if stmt:
+            lines = ["match %s with" % t, "| some %s => do" % pt] + ind(a) + ["| none => do"] + ind(b)
+            return io_attach("", lines) + self.seq(rest, tail, ctx)
+        return ["match %s with" % t, "| some %s =>" % pt] + ind(a) + ["| none =>"] + ind(b)
 
     def is_recovery_match(self, e):
         """exactly `match <call> { Ok(()) => (), Err(err) => { let _ = <vf>.set_file_length(x); return Err(err); } }`"""
@@ -2613,7 +3006,7 @@ class EmitIO:
             # `assert!(c)`: a panic is a failure of the monad
             t = self.cond(st[1])
             neg = t[2:-1] if (t.startswith("(!") and t.endswith(")") and io_atom(t[2:-1]) == t[2:-1]) else "(!%s)" % t
-            return ["(if %s then FileM.fail else pure ())" % neg] + self.seq(rest, tail, ctx)
+            return ["(if %s then %s else pure ())" % (neg, self.f.failtxt)] + self.seq(rest, tail, ctx)
         if k == "return":
             if rest or tail is not None:
                 fail(w + ": statements after `return`")
@@ -2628,11 +3021,24 @@ class EmitIO:
             def check_ann(vty):
                 if ann is not None and ann != vty:
                     fail("%s: `let %s: %s` bound to a value of class %r" % (w, " ".join(pat_vars(pat)), ty, vty))
+            if (self.f.engine and pat[0] == "pvar" and ty is None
+                    and e == ("mcall", ("field", ("field", ("path", ["self"]), "key_file"), "0"), "borrow_mut", [])):
+                # `let mut locked_key = self.key_file.0.borrow_mut();`: the key file (its `VarFileKeyCache`) held open
+                if pat[1] in self.vt or pat[1] in self.handles:
+                    fail("%s: `%s` is already a variable" % (w, pat[1]))
+                self.handles[pat[1]] = "key"
+                self.notes.append("`let mut %s = self.key_file.0.borrow_mut();` (`%s.m(..)` is the function `m` of the key file)"
+                                  % (pat[1], pat[1]))
+                return self.seq(rest, tail, ctx)
             if e[0] == "try":
                 lines, vty = self.mex(e[1])
                 check_ann(vty)
                 if isinstance(vty, tuple) and vty[0] == "sres":
-                    fail("%s: a piece struct returned by a call is bound to a variable" % w)
+                    # `let piece = call?;`: the returned fields are bound, the others are the arguments they come from
+                    if pat[0] != "pvar" or ty is not None:
+                        fail("%s: a piece struct returned by a call is bound to a pattern" % w)
+                    pt, post = self.bind_struct(pat[1], vty[1], vty[2], dict(vty[4]))
+                    return io_attach("let %s ← " % pt, lines) + post + self.seq(rest, tail, ctx)
                 return io_attach("let %s ← " % self.bind_pat(pat, vty, annw or self.mex_width(e[1])), lines) + self.seq(rest, tail, ctx)
             if self.is_monadic(e):
                 # `let r = <Result>; r`: the call is the value of the function
@@ -2647,6 +3053,11 @@ class EmitIO:
             if e[0] == "if":
                 lines, vty = self.value_if(e)
                 check_ann(vty)
+                if isinstance(vty, tuple) and vty[0] == "struct":
+                    if pat[0] != "pvar" or ty is not None:
+                        fail("%s: a piece struct is bound to a pattern" % w)
+                    pt, _post = self.bind_struct(pat[1], vty[1], [x for x, _c in IO_STRUCTS[vty[1]]["fields"]], {})
+                    return io_attach("let %s ← " % pt, lines) + self.seq(rest, tail, ctx)
                 return io_attach("let %s ← " % self.bind_pat(pat, vty, annw), lines) + self.seq(rest, tail, ctx)
             if self.is_struct_expr(e):
                 # `let piece = Struct::with(a, b, c);`: the fields stand for the variables given
@@ -2671,17 +3082,24 @@ class EmitIO:
                     check_ann(vty)
                     self.declare(pat[1], vty, alias_of=r)
                     return self.seq(rest, tail, ctx)
-            t, vty = self.px(e)
+            pre, t, vty = self.px_guarded(e)
             check_ann(vty)
             widths = annw
             if e[0] == "mcall":
                 r = self.resolve(e[1], e[2])
                 if r is not None and r[0] == "pure":
                     widths = IO_STRUCTS[r[1]]["pure"][e[2]][3]
-            return ["let %s := %s" % (self.bind_pat(pat, vty, widths), t)] + self.seq(rest, tail, ctx)
+            if isinstance(vty, tuple) and vty[0] == "option" and vty[1] is None:
+                fail("%s: `None` bound to a variable (its type is not evident)" % w)
+            return pre + ["let %s := %s" % (self.bind_pat(pat, vty, widths), t)] + self.seq(rest, tail, ctx)
         if k == "assign":
             _, op, lhs, rhs = st
             v = io_target(lhs, w)
+            if v in IO_DROPPED_ASSIGN:
+                if not (self.f.engine and op == "=" and rhs == ("path", ["true"])):
+                    fail("%s: assignment to `%s` that is not `%s = true;`" % (w, v, v))
+                self.notes.append(IO_DROPPED_ASSIGN[v])
+                return self.seq(rest, tail, ctx)
             if v in self.pending and v not in self.vt and op == "=" and isinstance(self.vt.get(v.split(".")[0]), tuple):
                 fc, ln = self.pending[v]
                 t, vty = self.px(rhs)
@@ -2695,17 +3113,47 @@ class EmitIO:
             for a, r in self.alias.items():
                 if r == v and a in self.vt:
                     fail("%s: `%s` is assigned while `%s` still stands for its old value" % (w, v, a))
-            t, vty = self.px(rhs if op == "=" else ("bin", op[:-1], lhs, rhs))
+            if op == "=" and rhs[0] == "try":
+                # `v = call?;`
+                lines, vty = self.mex(rhs[1])
+                if vty != self.vt[v]:
+                    fail("%s: `%s` of class %r is assigned a value of class %r" % (w, v, self.vt[v], vty))
+                wd = self.mex_width(rhs[1])
+                self.forget(v)
+                self.pristine.discard(v)
+                self.width.pop(v, None)
+                if wd:
+                    self.width[v] = wd
+                return io_attach("let %s ← " % self.names[v], lines) + self.seq(rest, tail, ctx)
+            if op in ("&=", "|="):
+                # `byte &= e;` / `byte |= e;` on a `u8`: both operands are `u8`, so is the result
+                wd = self.width.get(v)
+                if self.vt[v] != "int" or wd is None:
+                    fail("%s: `%s %s …`: the integer type of `%s` is not known" % (w, v, op, v))
+                t = self.px_bits(("bin", op[:-1], lhs, rhs), wd)
+                self.forget(v)
+                self.pristine.discard(v)
+                return ["let %s := %s" % (self.names[v], t)] + self.seq(rest, tail, ctx)
+            if op not in ("=", "+=", "-=", "*=", "/=", "%="):
+                fail("%s: assignment operator `%s` is outside the imperative I/O subset" % (w, op))
+            pre, t, vty = self.px_guarded(rhs if op == "=" else ("bin", op[:-1], lhs, rhs))
             if vty != self.vt[v]:
                 fail("%s: `%s` of class %r is assigned a value of class %r" % (w, v, self.vt[v], vty))
             self.forget(v)
             self.pristine.discard(v)
             self.width.pop(v, None)
-            return ["let %s := %s" % (self.names[v], t)] + self.seq(rest, tail, ctx)
+            return pre + ["let %s := %s" % (self.names[v], t)] + self.seq(rest, tail, ctx)
         if k == "while":
             return self.while_(st, rest, tail, ctx)
+        if k == "loop":
+            return self.loop_(st, rest, tail, ctx)
         if k == "expr":
             e = st[1]
+            if self.f.engine and e == ("call", ["_cold"], []):
+                self.notes.append("`_cold()` (a hint for the branch predictor: an empty `#[cold]` function, pinned)")
+                return self.seq(rest, tail, ctx)
+            if e[0] == "iflet":
+                return self.iflet(e, rest, tail, ctx, True)
             if e[0] == "try":
                 inner = e[1]
                 if inner[0] == "mcall":
@@ -2760,8 +3208,8 @@ class EmitIO:
             # a branch returns: the code after the `if` is the continuation of every branch that does not
             #   `if c { …; return Ok(x); } rest`            ->  if c then (… x) else (rest)
             #   `if c { A } else { B } rest`, returns inside  ->  if c then (A; rest) else (B; rest)
-            if self.in_loop and not (els is None and then[1] and then[1][-1][0] == "return"):
-                fail(w + ": `return` inside a conditional that is not the last statement of its block")
+            if self.in_loop and not (then[1] and then[1][-1][0] == "return"):
+                fail(w + ": `return` inside a loop must be the last statement of the then-block of its `if`")
             cc = self.cond(c)
 
             def branch(stmts, facts):
@@ -2783,63 +3231,76 @@ class EmitIO:
         tup = "()" if not vs else (self.names[vs[0]] if len(vs) == 1 else "(" + ", ".join(self.names[v] for v in vs) + ")")
         cc = self.cond(c)
         cb = CtxBranch(self, tup)
+        snap0 = self.snapshot()
         a = self.scoped(then[1], None, cb, self.cond_facts(c))
+        self.restore(snap0)                # the else-branch starts from the state before the `if`
         b = self.scoped(els[1], None, cb) if els is not None else ["pure " + tup]
+        self.restore(snap0, vs)
         for v in vs:
             self.forget(v)
         lines = ["if %s then do" % cc] + ind(a) + ["else do"] + ind(b)
         return io_attach("let %s ← " % tup if vs else "", lines) + self.seq(rest, tail, ctx)
 
-    def while_(self, st, rest, tail, ctx):
+    def loop_frame(self, what, node, asg):
+        """what a loop needs: (state variables, fixed variables, context parameters)"""
         w = self.where
-        _, c, body = st
-        if self.in_loop:
-            fail(w + ": nested `while` loops")
-        if body[2] is not None:
-            fail(w + ": `while` body with a value")
-        asg = io_assigned(body[1], w)
         for v in asg:
             if v not in self.vt:
                 fail("%s: assignment to the unknown variable `%s`" % (w, v))
-            if self.vt[v] not in NUMERIC:
+            if self.vt[v] not in NUMERIC and self.vt[v] != "bool":
                 fail("%s: loop variable `%s` of class %r" % (w, v, self.vt[v]))
         vs = [v for v in self.order if v in asg]
-        if not vs:
-            fail(w + ": `while` loop that assigns no variable")
         for v in vs:
-            if v in io_declared(body):
+            if v in io_declared(node):
                 fail("%s: the loop variable `%s` is also re-declared inside the loop" % (w, v))
-        has_ret = io_contains_return(body)
-        used = set(n[1][0] for n in io_walk((c, body)) if n[0] == "path" and len(n[1]) == 1)
+        used = set(n[1][0] for n in io_walk(node) if n[0] == "path" and len(n[1]) == 1)
+        for v in used:
+            if isinstance(self.vt.get(v), tuple) and self.vt[v][0] == "struct" and v not in io_declared(node):
+                fail("%s: the piece struct `%s` is used inside a %s and declared outside" % (w, v, what))
         extra = [v for v in self.order if v in used and v not in vs]
         for v in extra:
-            if self.vt[v] not in NUMERIC:
-                fail("%s: variable `%s` of class %r used inside a loop" % (w, v, self.vt[v]))
-        uses_c = io_uses_c((c, body), self.f, self.table)
+            if self.vt[v] not in NUMERIC and self.vt[v] not in ("bool", "bytes"):
+                fail("%s: variable `%s` of class %r used inside a %s" % (w, v, self.vt[v], what))
+        return vs, extra, io_needs(node, self.f, self.table, self.handles)
+
+    def loop_sig(self, vs, extra, needs):
+        """(binders of the fixed part, arguments of the fixed part, state pattern, state type)"""
+        binders = io_group_params([(x, CTX_TYPES[x]) for x in needs] + [(self.names[v], io_lean_ty(self.vt[v])) for v in extra])
+        fixed = "".join(" " + x for x in needs) + "".join(" " + self.names[v] for v in extra)
+        state = self.names[vs[0]] if len(vs) == 1 else "(" + ", ".join(self.names[v] for v in vs) + ")"
+        sty = " × ".join(io_lean_ty(self.vt[v]) for v in vs)
+        return (binders + " " if binders else ""), fixed, state, ("(" + sty + ")" if len(vs) > 1 else sty)
+
+    def while_(self, st, rest, tail, ctx):
+        w = self.where
+        _, c, body = st
+        if body[2] is not None:
+            fail(w + ": `while` body with a value")
+        has_ret = io_contains_return(body)
+        if self.in_loop and has_ret:
+            fail(w + ": `return` inside a nested loop")
+        vs, extra, needs = self.loop_frame("`while` loop", (c, body), io_assigned(body[1], w))
+        if not vs:
+            fail(w + ": `while` loop that assigns no variable")
         self.nloops += 1
         name = self.f.lean + "Loop" + ("" if self.nloops == 1 else str(self.nloops))
-        state = self.names[vs[0]] if len(vs) == 1 else "(" + ", ".join(self.names[v] for v in vs) + ")"
-        sty = " × ".join("Nat" for _ in vs)
+        binders, fixed, state, sty = self.loop_sig(vs, extra, needs)
         rty = io_lean_ty(self.f.ret)
-        if has_ret:
-            res_ty = "Sum %s %s" % (io_atom(rty) if " " in rty else rty, "(" + sty + ")" if len(vs) > 1 else sty)
-        else:
-            res_ty = sty
-        fixed = (" c" if uses_c else "") + "".join(" " + self.names[v] for v in extra)
+        res_ty = "Sum %s %s" % (io_atom(rty), sty) if has_ret else (sty[1:-1] if len(vs) > 1 else sty)
         # ---- the auxiliary function
         snap = self.snapshot()
         for v in vs:
             self.forget(v)                 # the body sees the state after any number of rounds
+        outer = self.in_loop
         self.in_loop = True
         cl = CtxLoop(self, "%s%s fuel %s" % (name, fixed, state), has_ret)
         cc = self.cond(c)
         blines = self.scoped(body[1], None, cl, self.cond_facts(c))
-        self.in_loop = False
+        self.in_loop = outer
         self.restore(snap, vs)
-        sig = ("(c : FileCfg) " if uses_c else "") + (("(" + " ".join(self.names[v] for v in extra) + " : Nat) ") if extra else "")
         done = "pure (.inr %s)" % state if has_ret else "pure %s" % state
-        text = ["def %s %s: Nat → %s → M (%s)" % (name, sig, "(" + sty + ")" if len(vs) > 1 else sty, res_ty),
-                "  | 0, _ => FileM.fail",
+        text = ["def %s %s: Nat → %s → %s (%s)" % (name, binders, sty, self.f.monad, res_ty),
+                "  | 0, _ => " + self.f.failtxt,
                 "  | fuel+1, %s =>" % state,
                 "    if %s then do" % cc] + ind(blines, 6) + ["    else", "      " + done]
         doc = ("the `while` loop of %s; state %s = the variables it assigns (`%s`); one round per unit of `fuel`, "
@@ -2849,36 +3310,107 @@ class EmitIO:
                   if has_ret else "the result is the state when the condition became false"))
         self.aux.append((doc, "\n".join(text)))
         # ---- the call
-        out = ["let loopFuel ← FileM.fileLen"]
+        out = ["let loopFuel ← " + self.f.fueltxt]
         call = "%s%s (loopFuel + 1) %s" % (name, fixed, state)
         if not has_ret:
             return out + ["let %s ← %s" % (state, call)] + self.seq(rest, tail, ctx)
         return out + ["let loopRes ← " + call, "match loopRes with", "| .inl loopRet =>"] + ind(ctx.ret_pure("loopRet")) + [
             "| .inr %s =>" % state] + ind(self.seq(rest, tail, ctx))
 
+    def loop_(self, st, rest, tail, ctx):
+        """`loop { … }` as the last statement of the function, left only by `return`: an auxiliary function
+        over the variables the body assigns whose value is the value of the function"""
+        w = self.where
+        body = st[1]
+        if rest or tail is not None or not isinstance(ctx, CtxFn):
+            fail(w + ": `loop` that is not the last statement of the function")
+        if self.in_loop:
+            fail(w + ": `loop` inside a loop")
+        if body[2] is not None:
+            fail(w + ": `loop` body with a value")
+        if not io_contains_return(body):
+            fail(w + ": `loop` without `return`")
+        if any(n[0] == "path" and n[1] in (["break"], ["continue"]) for n in io_walk(body)):
+            fail(w + ": `break` / `continue`")
+        vs, extra, needs = self.loop_frame("`loop`", body, io_assigned(body[1], w))
+        if not vs:
+            fail(w + ": `loop` that assigns no variable")
+        self.nloops += 1
+        name = self.f.lean + "Loop" + ("" if self.nloops == 1 else str(self.nloops))
+        binders, fixed, state, sty = self.loop_sig(vs, extra, needs)
+        snap = self.snapshot()
+        for v in vs:
+            self.forget(v)
+        self.in_loop = True
+        blines = self.scoped(body[1], None, CtxForever(self, "%s%s fuel %s" % (name, fixed, state)))
+        self.in_loop = False
+        self.restore(snap, vs)
+        text = ["def %s %s: Nat → %s → %s %s" % (name, binders, sty, self.f.monad, io_atom(io_lean_ty(self.f.ret))),
+                "  | 0, _ => " + self.f.failtxt,
+                "  | fuel+1, %s => do" % state] + ind(blines, 4)
+        doc = ("the `loop` of %s; state %s = the variables it assigns (`%s`); one round per unit of `fuel`, `fuel = 0` "
+               "fails; the value is that of the `return` that leaves the loop" % (self.f.src, state, "`, `".join(vs)))
+        self.aux.append((doc, "\n".join(text)))
+        return ["let loopFuel ← " + self.f.fueltxt, "%s%s (loopFuel + 1) %s" % (name, fixed, state)]
 
-def io_callee_key(f, n):
-    """the (owner, method) a method call of the body of `f` refers to, if it can be a translated function"""
+
+def io_call_target(f, n, handles=None):
+    """the translated function a method call of the body of `f` can refer to:
+    ((owner, method), file of the engine it works on | "self" | None, wrapper argument spec | None)"""
     rt = io_text(n[1])
     if rt in f.vf_texts:
-        return ("VarFile", n[2])
+        return (("VarFile", n[2]), None, None)
     if rt == "self" and f.owner in ("VarFileValueCache", "VarFileKeyCache"):
-        return (f.owner, n[2])
+        return ((f.owner, n[2]), None, None)
     if n[1][0] == "path" and len(n[1][1]) == 1 and n[1][1][0] in f.struct_params:
-        return (f.struct_params[n[1][1][0]], n[2])
+        return ((f.struct_params[n[1][1][0]], n[2]), None, None)
+    if f.engine:
+        if rt in ("self.key_file", "self.val_file"):
+            owner, via, wr = f.wrappers[rt[len("self."):]]
+            if n[2] not in wr:
+                return (("?" + rt, n[2]), via, None)
+            inner, nparams, spec = wr[n[2]]
+            return ((owner, inner), via, (nparams, spec))
+        if rt == "self.htx_file":
+            return (("HtxFile", n[2]), "htx", None)
+        hs = handles if handles is not None else f.handles
+        if n[1][0] == "path" and len(n[1][1]) == 1 and hs.get(n[1][1][0]) == "key":
+            return (("VarFileKeyCache", n[2]), "key", None)
+        if rt == "self":
+            return (("Engine", n[2]), "self", None)
     return None
 
 
-def io_uses_c(node, f, table):
-    """does the code refer to the piece manager (the parameter `c : FileCfg`), directly or through a callee?"""
+def io_callee_key(f, n):
+    t = io_call_target(f, n)
+    return t[0] if t is not None else None
+
+
+def io_map_ctx(x, via):
+    """the context parameter `x` of a callee, as the caller names it: the piece manager of a function of the
+    key / value file is `kc` / `vc` in the engine"""
+    if x == "c" and via == "key":
+        return "kc"
+    if x == "c" and via == "val":
+        return "vc"
+    return x
+
+
+def io_needs(node, f, table, handles=None):
+    """the context parameters the code refers to, directly or through a callee"""
+    out = set()
     for n in io_walk(node):
         if n[0] == "field" and n[2] == "piece_mgr":
-            return True
+            out.add("c")
+        if n[0] == "field" and io_text(n) in f.field_params:
+            out.add(f.field_params[io_text(n)][0])
         if n[0] == "mcall":
-            k = io_callee_key(f, n)
-            if k in table and table[k].needs_c:
-                return True
-    return False
+            if f.engine and n[2] == "cmp_u8":
+                out.add("cmp")
+            t = io_call_target(f, n, handles)
+            if t is not None and t[0] in table:
+                out.update(io_map_ctx(x, t[1]) for x in table[t[0]].needs)
+    return [x for x in CTX_ORDER if x in out]
 
 
 VFO, VPO, VCO, KPO, KCO = "VarFile", "ValuePiece", "VarFileValueCache", "KeyPiece", "VarFileKeyCache"
@@ -2989,6 +3521,60 @@ IO_FUNCS = [
      "(&mut self, offset: KeyPieceOffset) -> Result<ValuePieceOffset>", ["off"], "(off : Nat) : M Nat"),
     (KCO, "read_piece_only_bucket_next_offset", IO_KEY, "keyReadPieceOnlyBucketNextOffset",
      "(&mut self, offset: KeyPieceOffset,) -> Result<KeyPieceOffset>", ["off"], "(off : Nat) : M Nat"),
+    # ---- the hash-table file (htx.rs): `impl VarFile` and the handle `HtxFile`
+    (VFO, "seek_back_size", IO_VF, "seekBackSize", "(&mut self, size: Size<T>) -> Result<Offset<T>>", ["size"], "(size : Nat) : M Nat"),
+    (VFO, "read_hash_buckets_size", IO_HTX, "htxReadHashBucketsSize", "(&mut self) -> Result<u64>", [], ": M Nat"),
+    (VFO, "read_item_count", IO_HTX, "htxReadItemCount", "(&mut self) -> Result<u64>", [], ": M Nat"),
+    (VFO, "write_item_count", IO_HTX, "htxWriteItemCount", "(&mut self, val: u64) -> Result<()>", ["val"], "(val : Nat) : M Unit"),
+    (VFO, "read_key_piece_offset", IO_HTX, "htxReadKeyPieceOffsetIdx", "(&mut self, idx: u64) -> Result<KeyPieceOffset>",
+     ["idx"], "(idx : Nat) : M Nat"),
+    (VFO, "write_key_piece_offset", IO_HTX, "htxWriteKeyPieceOffsetIdx",
+     "(&mut self, bucket_size: u64, idx: u64, offset: KeyPieceOffset,) -> Result<()>", ["bucketSize", "idx", "off"],
+     "(bucketSize idx off : Nat) : M Unit"),
+    (VFO, "next_key_piece_offset", IO_HTX, "htxNextKeyPieceOffset",
+     "(&mut self, buckets_size: u64, idx: u64,) -> Result<(u64, KeyPieceOffset)>", ["bucketsSize", "idx"],
+     "(bucketsSize idx : Nat) : M (Nat × Nat)"),
+    ("HtxFile", "read_hash_buckets_size", IO_HTX, "htxReadHashBucketsSizeH", "(&self) -> Result<u64>", [], ": M Nat"),
+    ("HtxFile", "read_key_piece_offset", IO_HTX, "htxReadKeyPieceOffset", "(&self, hash: HashValue) -> Result<KeyPieceOffset>",
+     ["hash"], "(bucketsSize hash : Nat) : M Nat"),
+    ("HtxFile", "write_key_piece_offset", IO_HTX, "htxWriteKeyPieceOffset",
+     "(&self, hash: HashValue, offset: KeyPieceOffset) -> Result<()>", ["hash", "off"], "(bucketsSize hash off : Nat) : M Unit"),
+    ("HtxFile", "read_item_count", IO_HTX, "htxReadItemCountH", "(&self) -> Result<u64>", [], ": M Nat"),
+    ("HtxFile", "write_item_count_up", IO_HTX, "htxWriteItemCountUp", "(&mut self) -> Result<()>", [], ": M Unit"),
+    ("HtxFile", "write_item_count_down", IO_HTX, "htxWriteItemCountDown", "(&mut self) -> Result<()>", [], ": M Unit"),
+]
+
+# the engine (dbxxx.rs `FileDbXxxInner<KT>`) -> Engine.lean, monad `DbM` over the three files.
+# (owner, rust name, file, Lean name, signature, Lean names of the parameters, expected Lean signature,
+#  {impl header, does the body open with the computation of the hash})
+ENG = "Engine"
+_ENG_I = "impl<KT: DbMapKeyType> FileDbXxxInner<KT>"
+_ENG_B = "impl<KT: DbMapKeyType> DbXxxBase for FileDbXxxInner<KT>"
+_ENG_O = "impl<KT: DbMapKeyType> DbXxxObjectSafe<KT> for FileDbXxxInner<KT>"
+_CMP = "(cmp : List Nat → List Nat → Option Ordering)"
+ENG_FUNCS = [
+    (ENG, "load_value", IO_DBX, "loadValue", "(&self, piece_offset: KeyPieceOffset) -> Result<Vec<u8>>", ["off"],
+     "(off : Nat) : DbM (List Nat)", {"impl": _ENG_I}),
+    (ENG, "store_value_on_insert", IO_DBX, "storeValueOnInsert",
+     "(&mut self, piece_offset: KeyPieceOffset, value: &[u8],) -> Result<KeyPieceOffset>", ["off", "value"],
+     "(kc vc : FileCfg) (off : Nat) (value : List Nat) : DbM Nat", {"impl": _ENG_I}),
+    (ENG, "relink_moved_key_piece", IO_DBX, "relinkMovedKeyPiece",
+     "(&mut self, hash: HashValue, old_offset: KeyPieceOffset, new_offset: KeyPieceOffset,) -> Result<()>",
+     ["hash", "oldOffset", "newOffset"], "(kc : FileCfg) (bucketsSize hash oldOffset newOffset : Nat) : DbM Unit", {"impl": _ENG_I}),
+    (ENG, "find_in_hash_buckets_kt", IO_DBX, "findInHashBucketsKt",
+     "(&mut self, hash: HashValue, key_kt: &KT,) -> Result<Option<(KeyPieceOffset, KeyPieceOffset)>>", ["hash", "key"],
+     "(bucketsSize : Nat) %s (hash : Nat) (key : List Nat) : DbM (Option (Nat × Nat))" % _CMP, {"impl": _ENG_I}),
+    (ENG, "len", IO_DBX, "lenKt", "(&self) -> Result<u64>", [], ": DbM Nat", {"impl": _ENG_B}),
+    (ENG, "get_kt", IO_DBX, "getKt", "(&mut self, key_kt: &KT) -> Result<Option<Vec<u8>>>", ["key"],
+     "(bucketsSize : Nat) %s (hash : Nat) (key : List Nat) : DbM (Option (List Nat))" % _CMP, {"impl": _ENG_O, "hash": True}),
+    (ENG, "put_kt", IO_DBX, "putKt", "(&mut self, key_kt: &KT, value: &[u8]) -> Result<()>", ["key", "value"],
+     "(kc vc : FileCfg) (bucketsSize : Nat) %s (hash : Nat) (key value : List Nat) : DbM Unit" % _CMP,
+     {"impl": _ENG_O, "hash": True}),
+    (ENG, "del_kt", IO_DBX, "delKt", "(&mut self, key_kt: &KT) -> Result<Option<Vec<u8>>>", ["key"],
+     "(kc vc : FileCfg) (bucketsSize : Nat) %s (hash : Nat) (key : List Nat) : DbM (Option (List Nat))" % _CMP,
+     {"impl": _ENG_O, "hash": True}),
+    (ENG, "includes_key_kt", IO_DBX, "includesKeyKt", "(&mut self, key_kt: &KT) -> Result<bool>", ["key"],
+     "(bucketsSize : Nat) %s (hash : Nat) (key : List Nat) : DbM Bool" % _CMP, {"impl": _ENG_O, "hash": True}),
 ]
 
 
@@ -3079,92 +3665,264 @@ def io_struct_fields(owner_where, sname, cfg):
     return [(f, c, cfg[f].lstrip("-"), not cfg[f].startswith("-")) for f, c in st["fields"]]
 
 
-def emit_fileops(repo, feats, out, pure_names):
-    io_pin_semtype(repo, feats)
-    io_pin_structs(repo, feats, pure_names)
-    methods = {}
-    fns = {}
-    strip_tc = lambda ts: [v for j, v in enumerate(ts) if not (v == "," and j + 1 < len(ts) and ts[j + 1] == ")")]
-    for spec in IO_FUNCS:
-        owner, rust, rel, lean, sig, pnames, lsig = spec[:7]
-        ret_fields = spec[7] if len(spec) > 7 else None
-        header, vf_text, _pin = IO_OWNERS[owner]
-        where = "%s::<%s>::%s" % (rel, header, rust)
-        if (rel, header) not in methods:
-            methods[(rel, header)] = io_find_methods(repo, feats, rel, header)
-        cands = methods[(rel, header)].get(rust, [])
+def io_strip_tc(ts):
+    """a trailing comma of a parameter list (rustfmt, multi-line signatures) is not significant"""
+    return [v for j, v in enumerate(ts) if not (v == "," and j + 1 < len(ts) and ts[j + 1] == ")")]
+
+
+def io_pin_tokens(repo, relpath, lead, want, what):
+    got = io_find_item_tokens(repo, relpath, lead)
+    want = [v for _k, v in tokenize(want)]
+    if got != want:
+        fail("%s: %s is `%s`, the translation is configured for `%s`" % (relpath, what, " ".join(got), " ".join(want)))
+
+
+def io_pin_htx(repo, feats, const_srcs):
+    """htx.rs: the cache struct around the VarFile (its `file`, its `buckets_size`), the `HtxFile` handle, the
+    constants used; semtype.rs: `HashValue`, the `Node…` aliases; `impl SmallRead/SmallWrite for VarFile`"""
+    io_pin_tokens(repo, IO_HTX, "pub struct VarFileHtxCache",
+                  '#[derive(Debug)] pub struct VarFileHtxCache { pub file: VarFile, buckets_size: u64, '
+                  '#[cfg(feature = "htx_print_hits")] hits: u64, #[cfg(feature = "htx_print_hits")] miss: u64, }',
+                  "the definition of `VarFileHtxCache`")
+    io_pin_tokens(repo, IO_HTX, "pub struct HtxFile",
+                  "#[derive(Debug, Clone)] pub struct HtxFile(pub Rc<RefCell<VarFileHtxCache>>);",
+                  "the definition of `HtxFile`")
+    for rel, names in IO_CONSTS.items():
+        for rust, lean in names.items():
+            if const_srcs.get(lean) != "%s `%s`" % (rel, rust):
+                fail("%s: the constant `%s` is not `%s` of Consts.lean" % (rel, rust, lean))
+    src = strip_comments(open(os.path.join(repo, IO_ST)).read())
+    if not re.search(r"pub\s+struct\s+HashValue\s*\{\s*val:\s*u64,\s*\}\s*impl\s+HashValue\s*\{\s*(#\[inline\]\s*)?pub\s+fn\s+"
+                     r"new\(val:\s*u64\)\s*->\s*Self\s*\{\s*Self\s*\{\s*val\s*\}\s*\}\s*(#\[inline\]\s*)?pub\s+fn\s+"
+                     r"as_value\(&self\)\s*->\s*u64\s*\{\s*self\.val\s*\}", src):
+        fail("%s: `HashValue` is not `{ val: u64 }` with the plain `new` / `as_value`" % IO_ST)
+    for alias, target in (("NodePieceOffset", "Offset<Piece<Node>>"), ("NodePieceSize", "Size<Piece<Node>>")):
+        if not re.search(r"pub\s+type\s+%s\s*=\s*%s\s*;" % (re.escape(alias), re.escape(target)), src):
+            fail("%s: `pub type %s = %s;` not found" % (IO_ST, alias, target))
+    # `self.read_u8()` / `self.write_u8(v)` on the VarFile are the primitives of its buffer
+    for header, m, body in (("impl rabuf::SmallRead for VarFile", "read_u8", "fn read_u8(&mut self) -> Result<u8> { self.buf_file.read_u8() }"),
+                            ("impl rabuf::SmallWrite for VarFile", "write_u8",
+                             "fn write_u8(&mut self, val: u8) -> Result<()> { self.buf_file.write_u8(val) }"),
+                            ("impl rabuf::SmallRead for VarFile", "read_u64_le",
+                             "fn read_u64_le(&mut self) -> Result<u64> { self.buf_file.read_u64_le() }"),
+                            ("impl rabuf::SmallWrite for VarFile", "write_u64_le",
+                             "fn write_u64_le(&mut self, val: u64) -> Result<()> { self.buf_file.write_u64_le(val) }")):
+        cands = io_find_methods(repo, feats, IO_VF, header).get(m, [])
+        if len(cands) != 1 or [v for _k, v in cands[0][0]] != [v for _k, v in tokenize(body)]:
+            fail("%s::<%s>::%s is not `%s`" % (IO_VF, header, m, body))
+
+
+def io_wrappers(repo, feats, relpath, header, inner_owner, done):
+    """the wrapper layer `KeyFile<KT>` / `ValueFile` around the `VarFile…Cache`: every method that is
+    exactly `fn m(&self, p…) -> R { let mut locked = self.0.borrow_mut(); locked.g(a…) }` (or with
+    `RefCell::borrow_mut(&self.0)`), a… parameters or boolean literals, g a translated function:
+    m -> (g, number of parameters, [("param", i) | ("lit", expression)]).  Other methods are not listed
+    (a call of one of them fails)."""
+    out = {}
+    for m, cands in io_find_methods(repo, feats, relpath, header).items():
         if len(cands) != 1:
-            fail("%s: %d definitions with a true `#[cfg]` (exactly one expected)" % (where, len(cands)))
-        toks, blockdesc = cands[0]
-        recv, params, ret, ib = io_parse_sig(toks, where)
-        got = [v for _k, v in toks[2:ib]]
-        if got and got[0] == "<":
-            depth, j = 0, 0
-            while True:
-                depth += (got[j] == "<") - (got[j] == ">") - 2 * (got[j] == ">>")
-                j += 1
-                if depth == 0:
-                    break
-            got = got[j:]
-        # a trailing comma of the parameter list (rustfmt, multi-line signatures) is not significant
-        got = strip_tc(got)
-        want = strip_tc([v for _k, v in tokenize(sig)])
-        if got != want:
-            fail("%s: signature is `%s`, the translation is configured for `%s`" % (where, " ".join(got), " ".join(want)))
-        if not (ret.startswith("Result<") and ret.endswith(">")):
-            fail("%s: the return type `%s` is not `Result<..>`" % (where, ret))
-        f = IoFn()
-        f.owner, f.rust, f.rel, f.lean, f.where, f.lsig = owner, rust, rel, lean, where, lsig
-        f.src = "%s %s, `fn %s`" % (rel, blockdesc, rust)
-        f.ret = io_sig_type(ret[len("Result<"):-1], where)
-        f.ret_fields, f.ret_omitted = None, None
-        if isinstance(f.ret, tuple) and f.ret[0] == "struct":
-            names = [x for x, _c in IO_STRUCTS[f.ret[1]]["fields"]]
-            if not ret_fields or [x for x in names if x in ret_fields] != list(ret_fields):
-                fail("%s: configuration error: the returned fields of `%s`" % (where, f.ret[1]))
-            f.ret_fields = list(ret_fields)
-        elif ret_fields is not None or f.ret == "vfile":
-            fail("%s: configuration error: return type" % where)
-        f.vf_texts = set([vf_text] if vf_text else [])
-        f.struct_params = {}
-        f.params = []
-        f.recv_struct = owner in IO_STRUCTS
-        pn = list(pnames)
-        if f.recv_struct:
-            if recv != "&self" or not pn:
-                fail("%s: the receiver is `%s` (`&self` expected for a method of a piece struct)" % (where, recv))
-            f.params.append(IoParam("self", ("struct", owner), fields=io_struct_fields(where, owner, pn.pop(0))))
-            f.struct_params["self"] = owner
-        elif recv != "&mut self":
-            fail("%s: the receiver is not `&mut self`" % where)
-        if len(pn) != len(params):
-            fail("%s: %d parameters, %d configured" % (where, len(params), len(pn)))
-        for (prust, pt), ln in zip(params, pn):
-            cls = io_sig_type(pt, where)
-            if cls == "vfile":
-                if ln is not None or vf_text is not None:
-                    fail("%s: configuration error: `&mut VarFile` parameter `%s`" % (where, prust))
-                f.vf_texts.add(prust)
-                f.params.append(IoParam(prust, "vfile"))
-            elif isinstance(cls, tuple) and cls[0] == "struct":
-                f.params.append(IoParam(prust, cls, fields=io_struct_fields(where, cls[1], ln)))
-                f.struct_params[prust] = cls[1]
-            elif cls in NUMERIC or cls in ("bool", "bytes"):
-                if not isinstance(ln, str):
-                    fail("%s: configuration error: Lean name of `%s`" % (where, prust))
-                f.params.append(IoParam(prust, cls, lean=ln, width=pt if pt in WIDTH else None))
+            continue
+        toks = cands[0][0]
+        where = "%s::<%s>::%s" % (relpath, header, m)
+        try:
+            recv, params, ret, ib = io_parse_sig(toks, where)
+        except TrError:
+            continue
+        if recv != "&self":
+            continue
+        pp = P(toks[ib:], feats, where)
+        pp.keep_try = True
+        try:
+            body = pp.block()
+        except TrError:
+            continue
+        if pp.dropped or len(body[1]) != 1 or body[2] is None:
+            continue
+        st, tl = body[1][0], body[2]
+        lock = st[3] if st[0] == "let" else None
+        if not (st[0] == "let" and st[1] == ("pvar", "locked") and st[2] is None and st[4]
+                and lock in (("mcall", ("field", ("path", ["self"]), "0"), "borrow_mut", []),
+                             ("call", ["RefCell", "borrow_mut"], [("field", ("path", ["self"]), "0")]))):
+            continue
+        if not (tl[0] == "mcall" and tl[1] == ("path", ["locked"]) and (inner_owner, tl[2]) in done):
+            continue
+        names = [x[0] for x in params]
+        spec = []
+        for a in tl[3]:
+            if a[0] == "path" and len(a[1]) == 1 and a[1][0] in names:
+                spec.append(("param", names.index(a[1][0])))
+            elif a in (("path", ["true"]), ("path", ["false"])):
+                spec.append(("lit", a))
             else:
-                fail("%s: parameter `%s` of class %r" % (where, prust, cls))
-        if len(f.vf_texts) != 1:
-            fail("%s: %d expressions denote the VarFile (exactly one expected)" % (where, len(f.vf_texts)))
-        p = P(toks[ib:], feats, where)
-        p.keep_try = True
-        f.body = p.block()
-        if p.i != len(toks) - ib:
-            fail("%s: tokens after the body" % where)
-        f.dropped = p.dropped
-        fns[(owner, rust)] = f
-    # order: callees first
+                spec = None
+                break
+        if spec is None or sorted(x[1] for x in spec if x[0] == "param") != list(range(len(names))):
+            continue
+        g = done[(inner_owner, tl[2])]
+        # the wrapper's types are those of the function behind it
+        gp = [p_ for p_ in g.params if p_.cls != "vfile"]
+        ok = len(gp) == len(spec) and ret == g.ret_text
+        for p_, x in zip(gp, spec):
+            if x[0] == "param":
+                ok = ok and io_sig_type(params[x[1]][1], where) == p_.cls
+            else:
+                ok = ok and p_.cls == "bool"
+        if not ok:
+            fail("%s: the types of the wrapper differ from those of `%s`" % (where, tl[2]))
+        out[m] = (tl[2], len(names), spec)
+    return out
+
+
+def io_pin_engine(repo, feats):
+    io_pin_tokens(repo, IO_DBX, "pub struct FileDbXxxInner",
+                  "#[derive(Debug)] pub struct FileDbXxxInner<KT: DbMapKeyType> { dirty: bool, key_file: key::KeyFile<KT>, "
+                  "val_file: val::ValueFile, htx_file: htx::HtxFile, _phantom: std::marker::PhantomData<KT>, }",
+                  "the definition of `FileDbXxxInner`")
+    io_pin_tokens(repo, IO_KEY, "pub struct KeyFile",
+                  "#[derive(Debug, Clone)] pub struct KeyFile<KT: DbMapKeyType>(pub Rc<RefCell<VarFileKeyCache<KT>>>);",
+                  "the definition of `KeyFile`")
+    io_pin_tokens(repo, IO_VAL, "pub struct ValueFile",
+                  "#[derive(Debug, Clone)] pub struct ValueFile(Rc<RefCell<VarFileValueCache>>);",
+                  "the definition of `ValueFile`")
+    io_pin_tokens(repo, IO_MOD, "fn _cold", "#[inline] #[cold] fn _cold() {}", "the definition of `_cold`")
+    src = strip_comments(open(os.path.join(repo, "src/lib.rs")).read())
+    if len(re.findall(r"fn\s+cmp_u8\(&self,\s*other:\s*&\[u8\]\)\s*->\s*std::cmp::Ordering;", src)) != 1:
+        fail("src/lib.rs: `DbMapKeyType::cmp_u8(&self, other: &[u8]) -> std::cmp::Ordering` not found")
+
+
+# the statement `let hash = HashValue::new(key_kt.hash_value());` that opens the four API functions
+IO_HASH_STMT = ("let", ("pvar", "hash"), None,
+                ("call", ["HashValue", "new"], [("mcall", ("path", ["key_kt"]), "hash_value", [])]), False)
+
+
+def io_build_fn(repo, feats, methods, spec, engine):
+    """look up, pin and parse one configured function"""
+    owner, rust, rel, lean, sig, pnames, lsig = spec[:7]
+    opts = spec[7] if len(spec) > 7 else None
+    ret_fields = opts if isinstance(opts, list) else None
+    header, vf_text, _pin = IO_OWNERS[owner][:3] if not engine else (spec[7]["impl"], None, None)
+    where = "%s::<%s>::%s" % (rel, header, rust)
+    if (rel, header) not in methods:
+        methods[(rel, header)] = io_find_methods(repo, feats, rel, header)
+    cands = methods[(rel, header)].get(rust, [])
+    if len(cands) != 1:
+        fail("%s: %d definitions with a true `#[cfg]` (exactly one expected)" % (where, len(cands)))
+    toks, blockdesc = cands[0]
+    recv, params, ret, ib = io_parse_sig(toks, where)
+    got = [v for _k, v in toks[2:ib]]
+    if got and got[0] == "<":
+        depth, j = 0, 0
+        while True:
+            depth += (got[j] == "<") - (got[j] == ">") - 2 * (got[j] == ">>")
+            j += 1
+            if depth == 0:
+                break
+        got = got[j:]
+    got = io_strip_tc(got)
+    want = io_strip_tc([v for _k, v in tokenize(sig)])
+    if got != want:
+        fail("%s: signature is `%s`, the translation is configured for `%s`" % (where, " ".join(got), " ".join(want)))
+    if not (ret.startswith("Result<") and ret.endswith(">")):
+        fail("%s: the return type `%s` is not `Result<..>`" % (where, ret))
+    f = IoFn()
+    f.owner, f.rust, f.rel, f.lean, f.where, f.lsig = owner, rust, rel, lean, where, lsig
+    f.engine = engine
+    f.monad, f.failtxt, f.fueltxt = ("DbM", "DbM.fail", "DbM.keyLen") if engine else ("M", "FileM.fail", "FileM.fileLen")
+    f.src = "%s %s, `fn %s`" % (rel, blockdesc, rust)
+    f.ret_text = ret
+    f.ret = io_sig_type(ret[len("Result<"):-1], where)
+    f.ret_fields, f.ret_omitted = None, None
+    if isinstance(f.ret, tuple) and f.ret[0] == "struct":
+        names = [x for x, _c in IO_STRUCTS[f.ret[1]]["fields"]]
+        if not ret_fields or [x for x in names if x in ret_fields] != list(ret_fields):
+            fail("%s: configuration error: the returned fields of `%s`" % (where, f.ret[1]))
+        f.ret_fields = list(ret_fields)
+    elif ret_fields is not None or f.ret == "vfile":
+        fail("%s: configuration error: return type" % where)
+    f.vf_texts = set([vf_text] if vf_text else [])
+    f.struct_params = {}
+    f.params = []
+    f.handles = {}
+    f.wrappers = {}
+    f.field_params = {}
+    f.consts = dict(IO_CONSTS.get(rel, {}))
+    f.pre_notes = []
+    f.recv_struct = owner in IO_STRUCTS
+    pn = list(pnames)
+    if f.recv_struct:
+        if recv != "&self" or not pn:
+            fail("%s: the receiver is `%s` (`&self` expected for a method of a piece struct)" % (where, recv))
+        f.params.append(IoParam("self", ("struct", owner), fields=io_struct_fields(where, owner, pn.pop(0))))
+        f.struct_params["self"] = owner
+    elif recv != "&mut self" and not (engine or owner == "HtxFile"):
+        fail("%s: the receiver is not `&mut self`" % where)
+    if engine and opts.get("hash"):
+        # the hash of the key is computed by the caller
+        f.params.append(IoParam("hash", "int", lean="hash", width="u64"))
+    if len(pn) != len(params):
+        fail("%s: %d parameters, %d configured" % (where, len(params), len(pn)))
+    for (prust, pt), ln in zip(params, pn):
+        cls = io_sig_type(pt, where)
+        if cls == "vfile":
+            if ln is not None or vf_text is not None:
+                fail("%s: configuration error: `&mut VarFile` parameter `%s`" % (where, prust))
+            f.vf_texts.add(prust)
+            f.params.append(IoParam(prust, "vfile"))
+        elif isinstance(cls, tuple) and cls[0] == "struct":
+            f.params.append(IoParam(prust, cls, fields=io_struct_fields(where, cls[1], ln)))
+            f.struct_params[prust] = cls[1]
+        elif cls in NUMERIC or cls in ("bool", "bytes"):
+            if not isinstance(ln, str):
+                fail("%s: configuration error: Lean name of `%s`" % (where, prust))
+            f.params.append(IoParam(prust, cls, lean=ln, width=pt if pt in WIDTH else None))
+        else:
+            fail("%s: parameter `%s` of class %r" % (where, prust, cls))
+    if len(f.vf_texts) != (0 if engine else 1):
+        fail("%s: %d expressions denote the VarFile (exactly one expected)" % (where, len(f.vf_texts)))
+    p = P(toks[ib:], feats, where)
+    p.keep_try = True
+    f.body = p.block()
+    if p.i != len(toks) - ib:
+        fail("%s: tokens after the body" % where)
+    f.dropped = p.dropped
+    f.kept = p.kept
+    if owner == "HtxFile":
+        # `let mut locked = RefCell::borrow_mut(&self.0);` opens every method: the VarFile is `locked.file`,
+        # the field `locked.buckets_size` is the context parameter `bucketsSize`
+        st = f.body[1][0] if f.body[1] else None
+        if st != ("let", ("pvar", "locked"), None, ("call", ["RefCell", "borrow_mut"], [("field", ("path", ["self"]), "0")]), True):
+            fail("%s: the body does not start with `let mut locked = RefCell::borrow_mut(&self.0);`" % where)
+        f.body = ("block", f.body[1][1:], f.body[2])
+        lk = ("path", ["locked"])
+        if sum(1 for n in io_walk(f.body) if n == lk) != \
+                sum(1 for n in io_walk(f.body) if n[0] == "field" and n[1] == lk and n[2] in ("file", "buckets_size")):
+            fail("%s: `locked` is used other than as `locked.file` / `locked.buckets_size`" % where)
+        if any(n[0] == "assign" and io_text(n[2]).startswith("locked") for n in io_walk(f.body)):
+            fail("%s: a field of `locked` is assigned" % where)
+        f.field_params = {"locked.buckets_size": ("bucketsSize", "int", "u64")}
+        f.pre_notes.append("`let mut locked = RefCell::borrow_mut(&self.0);` (`locked.file` is the file, `locked.buckets_size` "
+                           "the parameter `bucketsSize`)")
+    if engine and opts.get("hash"):
+        if not f.body[1] or f.body[1][0] != IO_HASH_STMT:
+            fail("%s: the body does not start with `let hash = HashValue::new(key_kt.hash_value());`" % where)
+        f.body = ("block", f.body[1][1:], f.body[2])
+        f.pre_notes.append("`let hash = HashValue::new(key_kt.hash_value());` (the parameter `hash`: the caller computes it, "
+                           "`Abyss.hashValue key`)")
+    if engine:
+        # names that stand for the key file held open
+        for n in io_walk(f.body):
+            if n[0] == "let" and n[3] == ("mcall", ("field", ("field", ("path", ["self"]), "key_file"), "0"), "borrow_mut", []) \
+                    and n[1][0] == "pvar":
+                f.handles[n[1][1]] = "key"
+        for h in f.handles:
+            if sum(1 for n in io_walk(f.body) if n[0] in ("let", "iflet") and h in pat_vars(n[1])) != 1 or \
+                    any(p_.rust == h for p_ in f.params):
+                fail("%s: `%s` is declared more than once" % (where, h))
+    return f
+
+
+def io_translate(fns, specs, done, order):
+    """translate the functions `fns` (key -> IoFn), callees first; `done` holds the functions translated before"""
     for f in fns.values():
         f.calls = []
         for n in io_walk(f.body):
@@ -3172,7 +3930,6 @@ def emit_fileops(repo, feats, out, pure_names):
                 k = io_callee_key(f, n)
                 if k in fns and k not in f.calls:
                     f.calls.append(k)
-    done, order = {}, []
 
     def visit(key, stack):
         if key in done:
@@ -3182,11 +3939,11 @@ def emit_fileops(repo, feats, out, pure_names):
         for g in fns[key].calls:
             visit(g, stack + [key])
         f = fns[key]
-        f.needs_c = io_uses_c(f.body, f, done)
+        f.needs = io_needs(f.body, f, done)
         em = EmitIO(f, done)
         body = em.seq(f.body[1], f.body[2], CtxFn(em))
         f.aux = em.aux
-        f.notes = sorted(set(em.notes)) + f.dropped
+        f.notes = sorted(set(em.notes)) + f.pre_notes + f.dropped
         if f.ret_fields is not None:
             if f.ret_omitted is None:
                 fail("%s: no `Ok(<piece struct>)` was translated" % f.where)
@@ -3199,17 +3956,37 @@ def emit_fileops(repo, feats, out, pure_names):
             rty = f.ret
             f.value_note = ""
         # the derived Lean signature must be the configured one
-        lps = [lp for p_ in f.params for lp in p_.lean_params()]
-        derived = " ".join(([("(c : FileCfg)")] if f.needs_c else []) + ([io_group_params(lps)] if lps else [])
-                           + [": M " + io_atom(io_lean_ty(rty))])
+        lps = [(x, CTX_TYPES[x]) for x in f.needs] + [lp for p_ in f.params for lp in p_.lean_params()]
+        derived = " ".join(([io_group_params(lps)] if lps else []) + [": %s %s" % (f.monad, io_atom(io_lean_ty(rty)))])
         if derived != f.lsig:
             fail("%s: the Lean signature is `%s`, expected `%s`" % (f.where, derived, f.lsig))
         f.text = "def %s %s := do\n%s" % (f.lean, derived, "\n".join(ind(body)))
         done[key] = f
         order.append(f)
 
-    for spec in IO_FUNCS:
+    for spec in specs:
         visit((spec[0], spec[1]), [])
+
+
+def io_write_fns(fh, order):
+    for f in order:
+        for doc, text in f.aux:
+            fh.write("/-- %s -/\n%s\n\n" % (doc, text))
+        fh.write("/-- %s.%s%s%s -/\n%s\n\n" % (f.src, f.value_note,
+                                                (" Included: " + "; ".join(f.kept) + ".") if f.kept else "",
+                                                (" Dropped: " + "; ".join(f.notes) + ".") if f.notes else "", f.text))
+
+
+def emit_fileops(repo, feats, out, pure_names, const_srcs):
+    io_pin_semtype(repo, feats)
+    io_pin_structs(repo, feats, pure_names)
+    io_pin_htx(repo, feats, const_srcs)
+    methods = {}
+    fns = {}
+    for spec in IO_FUNCS:
+        fns[(spec[0], spec[1])] = io_build_fn(repo, feats, methods, spec, False)
+    done, order = {}, []
+    io_translate(fns, IO_FUNCS, done, order)
     if sorted((f.owner, f.rust) for f in order) != sorted((x[0], x[1]) for x in IO_FUNCS):
         fail("FileOps: the set of emitted functions is not the configured one")
     if len(set(f.lean for f in order)) != len(order):
@@ -3218,14 +3995,80 @@ def emit_fileops(repo, feats, out, pure_names):
         fh.write("import Abyss.FileM\nimport Abyss.Gen.Funcs\nimport Abyss.RecFile\n")
         fh.write(IO_HEADER)
         fh.write("set_option linter.unusedVariables false\n\nnamespace Abyss.Gen\nopen Abyss.FileM (M)\n\n")
-        for f in order:
-            for doc, text in f.aux:
-                fh.write("/-- %s -/\n%s\n\n" % (doc, text))
-            fh.write("/-- %s.%s%s -/\n%s\n\n" % (f.src, f.value_note,
-                                                  (" Dropped: " + "; ".join(f.notes) + ".") if f.notes else "", f.text))
+        fh.write(IO_PRELUDE)
+        io_write_fns(fh, order)
+        fh.write("end Abyss.Gen\n")
+    return len(order), done, methods
+
+
+def emit_engine(repo, feats, out, done, methods):
+    io_pin_engine(repo, feats)
+    wrappers = {
+        "key_file": ("VarFileKeyCache", "key", io_wrappers(repo, feats, IO_KEY, "impl<KT: DbMapKeyType> KeyFile<KT>",
+                                                            "VarFileKeyCache", done)),
+        "val_file": ("VarFileValueCache", "val", io_wrappers(repo, feats, IO_VAL, "impl ValueFile", "VarFileValueCache", done)),
+    }
+    fns = {}
+    for spec in ENG_FUNCS:
+        f = io_build_fn(repo, feats, methods, spec, True)
+        f.wrappers = wrappers
+        fns[(spec[0], spec[1])] = f
+    nfile = len(done)
+    order = []
+    io_translate(fns, ENG_FUNCS, done, order)
+    if sorted(f.rust for f in order) != sorted(x[1] for x in ENG_FUNCS) or len(done) != nfile + len(ENG_FUNCS):
+        fail("Engine: the set of emitted functions is not the configured one")
+    if len(set(f.lean for f in done.values())) != len(done):
+        fail("Engine: two functions with the same Lean name")
+    with open(os.path.join(out, "Engine.lean"), "w") as fh:
+        fh.write("import Abyss.DbM\nimport Abyss.Gen.FileOps\n")
+        fh.write(ENG_HEADER)
+        fh.write("set_option linter.unusedVariables false\n\nnamespace Abyss.Gen\nopen Abyss.FileM (M)\n"
+                 "open Abyss.DbM (liftHtx liftKey liftVal)\n\n")
+        io_write_fns(fh, order)
         fh.write("end Abyss.Gen\n")
     return len(order)
 
+
+IO_PRELUDE = """/-- `!x` on a `u8` -/
+def u8Not (x : Nat) : Nat := 0xFF - x % 256
+
+/-- `x << n` on a `u8`: the bits shifted out are lost (`% 256`); the shift amount is taken modulo 8, as a release
+build does (a debug build panics when `n ≥ 8`; the translated code only shifts by `idx % 8`) -/
+def u8Shl (x n : Nat) : Nat := Nat.shiftLeft x (n % 8) % 256
+
+"""
+
+ENG_HEADER = """/-! GENERATED by tools/rs2lean.py from /repo — do not edit.
+The engine: the methods of `FileDbXxxInner<KT>` (src/filedb/inner/dbxxx.rs: `load_value`, `store_value_on_insert`,
+`relink_moved_key_piece`, `find_in_hash_buckets_kt`, `len`, `get_kt`, `put_kt`, `del_kt`, `includes_key_kt`) as
+functions in `Abyss.DbM` (Abyss/DbM.lean): state = the three flat files (`htx`, `key`, `val`), failure = `Err` /
+panic / a loop out of fuel.  The rules of FileOps.lean apply; in addition:
+
+* `self.key_file.m(..)` / `self.val_file.m(..)`: the wrapper `KeyFile<KT>::m` / `ValueFile::m` must be exactly
+  `{ let mut locked = self.0.borrow_mut(); locked.g(a…) }` (a… its parameters or boolean literals, e.g.
+  `write_piece(piece)` = `locked.write_piece(piece, false)`; read from key.rs / val.rs on every run); the call is
+  `liftKey (g kc …)` / `liftVal (g vc …)` with the function `g` of FileOps.lean.  `self.htx_file.m(..)` is
+  `liftHtx (htx… bucketsSize …)` (the `HtxFile` methods of FileOps.lean).  After
+  `let mut locked_key = self.key_file.0.borrow_mut();` a call `locked_key.g(..)` is `liftKey (g …)`.
+  `self.m(..)` is the engine function `m` of this file.
+* context parameters, only those a function needs, in this order: `kc vc : FileCfg` (piece managers of the key
+  and of the value file), `bucketsSize` (the field `buckets_size` of the `VarFileHtxCache`), `cmp` (`KT::cmp_u8`:
+  `cmpU8Bytes`, … of Funcs.lean; `none` = it panics); then `hash` where the Rust body opens with
+  `let hash = HashValue::new(key_kt.hash_value());` (the caller passes `Abyss.hashValue key`); a key is its bytes.
+* `match key_kt.cmp_u8(&bytes) { Ordering::Equal => a, Ordering::Greater => b, Ordering::Less => c }` is a `match`
+  on `cmp key bytes` (`none` fails).
+* `Option`: `Some(x)`/`None` are `some x`/`none`, `.map(Some)` is bind + `pure (some _)`,
+  `if let Some(p) = o { A } else { B }` is `match o with | some p => A | none => B`.
+* a local piece struct `let p = call?;` is flattened into `p<Field>` variables: the fields the call returns are
+  bound by the pattern, the others are the arguments they come from (see the doc comment of the callee);
+  a struct as the value of a block is the tuple of all its fields.
+* `loop { … }` (last statement, left only by `return`) is an auxiliary function like a `while` loop whose value
+  is the value of the function; loop fuel is `(← DbM.keyLen) + 1`: a chain of the key file has fewer pieces
+  than the file has bytes.
+* `self.dirty = true;` and `_cold();` are left out (named in the doc comments).
+-/
+"""
 
 IO_HEADER = """/-! GENERATED by tools/rs2lean.py from /repo — do not edit.
 Byte-level I/O of the record files: the `&mut self` methods of `VarFile`
@@ -3265,7 +4108,17 @@ key file (src/filedb/inner/val.rs `ValuePiece`, `VarFileValueCache`; src/filedb/
   dropped from that function.
 * a `while` loop is an auxiliary function `<name>Loop`, structurally recursive on `fuel`, over the tuple
   of variables the loop assigns; `fuel = 0` is `FileM.fail`; the caller passes `(← FileM.fileLen) + 1`
-  (a free list cannot have more slots than the file has bytes).
+  (a free list cannot have more slots than the file has bytes, a table not more buckets).
+* the hash-table file (src/filedb/inner/htx.rs): `impl VarFile` (`htx…` functions) and the methods of the handle
+  `HtxFile(Rc<RefCell<VarFileHtxCache>>)`: every body opens with `let mut locked = RefCell::borrow_mut(&self.0);`
+  (checked, erased); `locked.file` is the file, `locked.buckets_size` the leading parameter `bucketsSize`.
+  `HTX_HEADER_SZ`, `HTX_HT_SIZE_OFFSET`, `HTX_ITEM_COUNT_OFFSET` are the constants of Consts.lean.
+  `self.read_u8()` / `self.write_u8(v)` are `FileM.readU8` / `FileM.writeU8`; `v = call?;` re-binds `v`;
+  `byte &= e;` / `byte |= e;` on a `u8` variable: `Nat.land` / `Nat.lor`, `!x` = `u8Not x`, `x << n` = `u8Shl x n`
+  (below; literals are `u8`); `std::mem::size_of_val(&v)` is the size of the integer type of `v` (evident from
+  `v = <primitive>()?`); `seek(SeekFrom::Current(-(n as i64)))` with `n: u32` is `FileM.seekBack n`.
+* an unsigned subtraction `a - b` that the source does not guard (`idx -= 8 * 8`, `idx - 8`) is preceded by
+  `if a < b then FileM.fail` (a debug build panics there, a release build wraps: outside the model).
 -/
 """
 
@@ -3425,9 +4278,11 @@ def main():
     # ---------------- byte-level I/O of the allocator (monadic)
     global STAGE
     STAGE = "fileops"
-    n_io = emit_fileops(repo, feats, out, set(x[0] for x in F))
-    print("rs2lean: wrote %d constants, %d functions, %d file operations (features: %s)"
-          % (len(C), len(F), n_io, ",".join(sorted(feats))))
+    n_io, done, methods = emit_fileops(repo, feats, out, set(x[0] for x in F), dict((x[0], x[2]) for x in C))
+    STAGE = "engine"
+    n_eng = emit_engine(repo, feats, out, done, methods)
+    print("rs2lean: wrote %d constants, %d functions, %d file operations, %d engine functions (features: %s)"
+          % (len(C), len(F), n_io, n_eng, ",".join(sorted(feats))))
 
 
 if __name__ == "__main__":
@@ -3437,10 +4292,11 @@ if __name__ == "__main__":
         print("rs2lean: UNSUPPORTED: %s" % e, file=sys.stderr)
         # nothing was emitted; a Funcs.lean left over from an earlier run must not be mistaken for
         # the translation of this source: replace it by a file that fails to build with the reason
-        # (a failure in the FileOps stage leaves the Consts.lean / Funcs.lean just written in place)
+        # (a failure in the FileOps stage leaves the Consts.lean / Funcs.lean just written in place, a failure
+        # in the Engine stage also the FileOps.lean)
         if len(sys.argv) > 2 and os.path.isdir(sys.argv[2]):
             msg = ("rs2lean: UNSUPPORTED: %s" % e).replace("\\", "\\\\").replace('"', '\\"').replace("\n", " ")
-            for name in (["Funcs.lean"] if STAGE == "funcs" else []) + ["FileOps.lean"]:
+            for name in (["Funcs.lean"] if STAGE == "funcs" else []) + (["FileOps.lean"] if STAGE != "engine" else []) + ["Engine.lean"]:
                 with open(os.path.join(sys.argv[2], name), "w") as fh:
                     fh.write("/-! GENERATED by tools/rs2lean.py — the translation FAILED, nothing was emitted. -/\n")
                     fh.write('#eval (throw (IO.userError "%s") : IO Unit)\n' % msg)
